@@ -26,7 +26,7 @@ Qed.
 Lemma apply_eff_frame : forall e w,
   w_now (apply_eff w e) = w_now w /\ w_pods (apply_eff w e) = w_pods w /\ w_vas (apply_eff w e) = w_vas w.
 Proof.
-  intros e w. destruct e as [ok|a|i ok|a|ok d v t|i ok|ok t|i ok|ok|ok|ok|ok]; simpl;
+  intros e w. destruct e as [ok|a|i ok|a|ok d v t|i ok|ok t|i ok|ok|ok|ok|ok|ok|ok d v t]; simpl;
     try destruct ok; try destruct a; simpl;
     try (destruct (upd_claim_frame (api_delete_claim (w_now w)) w) as (?&?&?&_); auto; fail);
     try (match goal with |- context[upd_claim ?g w] => destruct (upd_claim_frame g w) as (?&?&?&_); auto end; fail);
@@ -44,7 +44,7 @@ Qed.
 
 Lemma apply_eff_inst : forall e w, inst_safe e = true -> w_inst (apply_eff w e) = w_inst w.
 Proof.
-  intros e w H. destruct e as [ok|a|i ok|a|ok d v t|i ok|ok t|i ok|ok|ok|ok|ok]; simpl in *;
+  intros e w H. destruct e as [ok|a|i ok|a|ok d v t|i ok|ok t|i ok|ok|ok|ok|ok|ok|ok d v t]; simpl in *;
     try destruct ok; try destruct a; simpl in *; try discriminate;
     try (match goal with |- context[upd_claim ?g w] => destruct (upd_claim_frame g w) as (_&_&_&?&_); auto end; fail);
     try (match goal with |- context[upd_node ?i ?g w] => destruct (upd_node_frame i g w) as (_&_&_&?&_); auto end; fail);
@@ -60,7 +60,7 @@ Qed.
 
 Lemma apply_eff_nodes : forall e w, node_safe e = true -> w_nodes (apply_eff w e) = w_nodes w.
 Proof.
-  intros e w H. destruct e as [ok|a|i ok|a|ok d v t|i ok|ok t|i ok|ok|ok|ok|ok]; simpl in *;
+  intros e w H. destruct e as [ok|a|i ok|a|ok d v t|i ok|ok t|i ok|ok|ok|ok|ok|ok|ok d v t]; simpl in *;
     try destruct ok; try destruct a; simpl in *; try discriminate;
     try (match goal with |- context[upd_claim ?g w] => destruct (upd_claim_frame g w) as (_&_&_&_&?&_); auto end; fail);
     auto.
@@ -176,11 +176,11 @@ Qed.
 
 Lemma tgp_expired_spec : forall w0 w, tgp_expired_b w0 w = true <-> tgp_expired w0 w.
 Proof.
-  intros w0 w. unfold tgp_expired_b, tgp_expired. destruct (w_claim w0) as [c|].
+  intros w0 w. unfold tgp_expired_b, tgp_expired. destruct (visible_claim w0) as [c|].
   - split.
-    + intros H. apply andb_prop in H. destruct H as [Hp H]. destruct (c_annot c) as [| |t] eqn:E; try discriminate.
+    + intros H. destruct (c_annot c) as [| |t] eqn:E; try discriminate.
       apply Z.ltb_lt in H. exists c, t. repeat split; auto. lia.
-    + intros (c' & t & E & Hp & Ha & Hl). inversion E; subst c'. rewrite Hp, Ha. simpl. apply Z.ltb_lt. lia.
+    + intros (c' & t & E & Ha & Hl). inversion E; subst c'. rewrite Ha. apply Z.ltb_lt. lia.
   - split; [discriminate | intros (c' & t & E & _); discriminate].
 Qed.
 
@@ -207,11 +207,9 @@ Qed.
 
 Lemma node_has_claim_b_spec : forall w, node_has_claim_b w = true <-> node_has_claim w.
 Proof.
-  intros w. unfold node_has_claim_b, node_has_claim, visible_claim. destruct (w_claim w) as [c|].
-  - destruct (c_pid c) eqn:E; simpl; split; intros H; auto; try discriminate.
-    + exists c. auto.
-    + destruct H as (c' & E' & Hp). inversion E'; subst. congruence.
-  - simpl. split; [discriminate | intros (c & E & _); discriminate].
+  intros w. unfold node_has_claim_b, node_has_claim. destruct (visible_claim w) as [c|]; simpl.
+  - split; [intros _; exists c; reflexivity | reflexivity].
+  - split; [discriminate | intros (c & E); discriminate].
 Qed.
 
 Lemma claim_fin_ok_b_spec : forall w, claim_fin_ok_b w = true <-> claim_fin_ok w.
@@ -297,37 +295,40 @@ Qed.
 
 (* ------------------------------------------------------------------ node termination: the finalizer *)
 
-Lemma rm_node_fin_shape : forall i f e r, rm_node_fin i f = (e, r) ->
-  e = [ERmNodeFin i true] \/ e = [ERmNodeFin i false].
-Proof. intros i f e r H. unfold rm_node_fin in H. destruct (fails f SRmNodeFin) as [[| |]|]; inversion H; auto. Qed.
+Lemma rm_node_fin_shape : forall i cur f e r, rm_node_fin i cur f = (e, r) ->
+  (e = [ERmNodeFin i true] /\ exists m, cur = Some m) \/ e = [ERmNodeFin i false].
+Proof.
+  intros i cur f e r H. unfold rm_node_fin in H. destruct (fails f SRmNodeFin) as [[| |]|]; try (inversion H; auto; fail).
+  destruct cur as [m|]; inversion H; [left; split; [reflexivity|exists m; reflexivity]|right; reflexivity].
+Qed.
 
 Lemma in_app3 : forall (A : Type) (x : A) a b, In x (a ++ b) -> ~ In x a -> In x b.
 Proof. intros A x a b H Hn. apply in_app_or in H. destruct H; [contradiction|assumption]. Qed.
 
-Lemma node_tail_rm : forall w i f oc dl cgone stale es r j,
-  node_tail w i f oc dl cgone stale = (es, r) -> In (ERmNodeFin j true) es ->
-  j = i /\ exists p, es = p ++ [ERmNodeFin i true] /\ forallb node_safe p = true /\ forallb inst_safe p = true /\
+Lemma node_tail_rm : forall w i cur f oc tw dl cgone stale es r j,
+  node_tail w i cur f oc tw dl cgone stale = (es, r) -> In (ERmNodeFin j true) es ->
+  j = i /\ (exists m, cur = Some m) /\ exists p, es = p ++ [ERmNodeFin i true] /\ forallb node_safe p = true /\ forallb inst_safe p = true /\
     drain_done i w = true /\ (pending_vas i w = [] \/ elapsed (w_now w) dl = true) /\
     (is_some oc = true -> inst_absent (w_inst w) = true).
 Proof.
-  intros w i f oc dl cgone stale es r j H Hin. unfold node_tail in H.
+  intros w i cur f oc tw dl cgone stale es r j H Hin. unfold node_tail in H.
   match type of H with context[await_drain ?hc i w f dl ?cs] =>
     destruct (await_drain_spec hc i w f dl cs) as [Hs Hr]; set (a := await_drain hc i w f dl cs) in * end.
   match type of H with (let '(e4, stop4) := ?X in _) = _ => destruct X as [e4 stop4] eqn:E4 end.
   assert (H4 : forallb node_safe e4 = true /\ forallb inst_safe e4 = true).
   { clear - E4. destruct (is_some oc && negb _) in E4; [|inversion E4; auto].
-    destruct (a_conds a) as [[d v] t]. destruct (status_patch_ans f cgone stale); inversion E4; auto. }
+    destruct (a_conds a) as [[d v] t]. destruct tw; destruct (status_patch_ans f cgone stale); inversion E4; auto. }
   destruct H4 as [Hn4 Hi4].
   assert (Hpre : forallb node_safe (a_effs a ++ e4) = true) by (rewrite forallb_app, Hs, Hn4; reflexivity).
   destruct stop4 as [r4|].
   { inversion H; subst. exfalso. eapply in_node_safe; eauto. }
   destruct (a_res a) eqn:Er;
     try (inversion H; subst; exfalso; eapply in_node_safe; eauto; fail).
-  destruct (rm_node_fin i f) as [e r'] eqn:Erm. inversion H; subst. clear H.
+  destruct (rm_node_fin i cur f) as [e r'] eqn:Erm. inversion H; subst. clear H.
   destruct (Hr eq_refl) as (Hia & Hd & Hv & Hc).
   rewrite app_assoc in Hin. apply in_app3 in Hin; [|eapply in_node_safe; eauto].
-  apply rm_node_fin_shape in Erm. destruct Erm as [Erm|Erm]; subst e; simpl in Hin; destruct Hin as [Hin|[]]; inversion Hin; subst.
-  split; [reflexivity|]. exists (a_effs a ++ e4). split; [rewrite app_assoc; reflexivity|].
+  apply rm_node_fin_shape in Erm. destruct Erm as [[Erm Hcur]|Erm]; subst e; simpl in Hin; destruct Hin as [Hin|[]]; inversion Hin; subst.
+  split; [reflexivity|]. split; [exact Hcur|]. exists (a_effs a ++ e4). split; [rewrite app_assoc; reflexivity|].
   split; [exact Hpre|]. split; [rewrite forallb_app, Hia, Hi4; reflexivity|]. auto.
 Qed.
 
@@ -341,32 +342,48 @@ Proof. intros i a b Hp Hn Hv. unfold pending_vas, shielded_pvs, vas_on, pods_on.
 Lemma elapsed_tgp : forall w wi dl, term_time (visible_claim w) = Some dl -> elapsed (w_now w) dl = true ->
   w_now wi = w_now w -> tgp_expired_b w wi = true.
 Proof.
-  intros w wi dl Ht He Hn. unfold tgp_expired_b, term_time, visible_claim in *.
-  destruct (w_claim w) as [c|]; [|inversion Ht; subst; discriminate].
-  destruct (c_pid c) eqn:Ep; [|inversion Ht; subst; discriminate].
+  intros w wi dl Ht He Hn. unfold tgp_expired_b, term_time in *.
+  destruct (visible_claim w) as [c|]; [|inversion Ht; subst; discriminate].
   destruct (c_annot c); inversion Ht; subst; simpl in *; try discriminate. rewrite Hn. exact He.
 Qed.
 
-(* what holds in the world of every successful finalizer-removing patch of the node controller *)
-Definition node_gate (w wi : world) (i : Z) : Prop :=
+(* what holds in the world of every successful finalizer-removing patch of the node controller;
+   [nr] = the readiness the controller saw on the object it was handed *)
+Definition node_gate (w wi : world) (i : Z) (nr : bool) : Prop :=
   exists n', get_node i (w_nodes wi) = Some n' /\
+    (exists m, get_node i (w_nodes w) = Some m /\ n_ready n' = n_ready m) /\
     ((n_taint n' = true /\ drain_done i wi = true /\
       (pending_vas i wi = [] \/ tgp_expired_b w wi = true) /\
       (is_some (visible_claim w) = true -> inst_absent (w_inst wi) = true))
-     \/ (n_ready n' = false /\ inst_absent (w_inst wi) = true)).
+     \/ (nr = false /\ inst_absent (w_inst wi) = true)).
+
+Lemma older_node_refl : forall n, older_node n n = true.
+Proof.
+  intros n. unfold older_node. rewrite Z.eqb_refl, Bool.eqb_reflx.
+  destruct (n_taint n), (n_lbl n), (n_del n); reflexivity.
+Qed.
+
+Lemma older_node_taint : forall n m, older_node n m = true -> n_taint n = true -> n_taint m = true.
+Proof.
+  intros n m H Ht. unfold older_node in H. rewrite Ht in H.
+  destruct (n_taint m); [reflexivity|]. simpl in H. rewrite !andb_false_r in H. simpl in H.
+  destruct (n_id n =? n_id m), (Bool.eqb (n_managed n) (n_managed m)); discriminate.
+Qed.
 
 Lemma node_finalize_rm : forall w n f es r j,
-  node_finalize w n f = (es, r) -> get_node (n_id n) (w_nodes w) = Some n -> In (ERmNodeFin j true) es ->
-  j = n_id n /\ exists pre, es = pre ++ [ERmNodeFin (n_id n) true] /\
-    node_gate w (apply_effs w pre) (n_id n).
+  node_finalize w n f = (es, r) -> In (ERmNodeFin j true) es ->
+  j = n_id n /\ exists pre m, es = pre ++ [ERmNodeFin (n_id n) true] /\
+    get_node (n_id n) (w_nodes w) = Some m /\
+    (older_node n m = true -> node_gate w (apply_effs w pre) (n_id n) (n_ready n)).
 Proof.
-  intros w n f es r j H Hget Hin. unfold node_finalize in H. cbv zeta in H.
+  intros w n f es r j H Hin. unfold node_finalize in H. cbv zeta in H.
+  remember (get_node (n_id n) (w_nodes w)) as cur eqn:Hcur.
   destruct (fails f SListClaims); [inversion H; subst; contradiction|].
-  destruct (del_claim_step (visible_claim w) f) as [[[e1 stop1] stale] cgone] eqn:E1.
+  destruct (del_claim_step (visible_claim w) (on_twin w) f) as [[[e1 stop1] stale] cgone] eqn:E1.
   assert (H1 : forallb node_safe e1 = true /\ forallb inst_safe e1 = true).
   { clear - E1. unfold del_claim_step in E1. destruct (visible_claim w) as [c|]; [|inversion E1; auto].
     destruct (is_some (c_del c)); [inversion E1; auto|].
-    destruct (fails f SDelClaim) as [[| |]|]; inversion E1; auto. }
+    destruct (on_twin w); destruct (fails f SDelClaim) as [[| |]|]; inversion E1; auto. }
   destruct H1 as [Hn1 Hi1].
   destruct stop1; [inversion H; subst; exfalso; eapply in_node_safe; eauto|].
   destruct (not_ready_step n (w_inst w) f) as [e2 short] eqn:E2.
@@ -380,47 +397,53 @@ Proof.
   assert (Hi12 : forallb inst_safe (e1 ++ e2) = true) by (rewrite forallb_app, Hi1, Hi2; reflexivity).
   destruct short as [[|]|].
   - (* not Ready and the provider says NotFound *)
-    destruct (rm_node_fin (n_id n) f) as [e r'] eqn:Erm. inversion H; subst. clear H.
+    destruct (rm_node_fin (n_id n) cur f) as [e r'] eqn:Erm. inversion H; subst es r'. clear H.
     apply in_app3 in Hin; [|eapply in_node_safe; eauto].
-    apply rm_node_fin_shape in Erm. destruct Erm as [Erm|Erm]; subst e; simpl in Hin; destruct Hin as [Hin|[]]; inversion Hin; subst.
-    split; [reflexivity|]. exists (e1 ++ e2). split; [reflexivity|].
-    destruct (Hshort eq_refl) as [Hr Ha]. exists n. split.
+    apply rm_node_fin_shape in Erm. destruct Erm as [[Erm (m & Hm)]|Erm]; subst e; simpl in Hin; destruct Hin as [Hin|[]]; inversion Hin; subst j.
+    split; [reflexivity|]. exists (e1 ++ e2), m. split; [reflexivity|].
+    assert (Hget : get_node (n_id n) (w_nodes w) = Some m) by congruence.
+    split; [congruence|]. intros _.
+    destruct (Hshort eq_refl) as [Hr Ha]. exists m. split; [|split].
     + rewrite apply_effs_nodes by exact Hn12. exact Hget.
+    + exists m. split; [exact Hget|reflexivity].
     + right. split; [exact Hr|]. rewrite apply_effs_inst by exact Hi12. exact Ha.
   - inversion H; subst. exfalso. eapply in_node_safe; eauto.
   - destruct (term_time (visible_claim w)) as [dl|] eqn:Et; [|inversion H; subst; exfalso; eapply in_node_safe; eauto].
-    destruct (taint_step n f) as [e3 stop3] eqn:E3.
+    destruct (taint_step n cur f) as [e3 stop3] eqn:E3.
     assert (H3 : stop3 = None -> (e3 = [] /\ n_taint n = true) \/ e3 = [ETaint (n_id n) true]).
     { clear - E3. unfold taint_step in E3. intros ->. destruct (n_taint n && n_lbl n) eqn:Etl.
       - inversion E3. left. apply andb_prop in Etl. destruct Etl. auto.
-      - destruct (fails f STaint) as [[| |]|]; inversion E3. right. reflexivity. }
+      - destruct (fails f STaint) as [[| |]|]; try (inversion E3; fail).
+        destruct cur as [m|]; [|inversion E3]. destruct (node_eqb n m); inversion E3. right. reflexivity. }
     destruct stop3 as [r3|].
     { inversion H; subst. exfalso. apply in_app3 in Hin; [|eapply in_node_safe; eauto].
       clear - E3 Hin. unfold taint_step in E3. destruct (n_taint n && n_lbl n); [inversion E3; subst; contradiction|].
-      destruct (fails f STaint) as [[| |]|]; inversion E3; subst; simpl in Hin; destruct Hin as [X|[]]; discriminate. }
+      destruct (fails f STaint) as [[| |]|]; try (inversion E3; subst; simpl in Hin; destruct Hin as [X|[]]; discriminate).
+      destruct (get_node (n_id n) (w_nodes w)) as [m|]; [destruct (node_eqb n m)|]; inversion E3; subst; simpl in Hin; destruct Hin as [X|[]]; discriminate. }
     specialize (H3 eq_refl).
-    destruct (node_tail w (n_id n) f (visible_claim w) dl cgone stale) as [et rt] eqn:Etail.
-    inversion H; subst. clear H.
+    destruct (node_tail w (n_id n) cur f (visible_claim w) (on_twin w) dl cgone stale) as [et rt] eqn:Etail.
+    inversion H; subst es rt. clear H.
     apply in_app3 in Hin; [|eapply in_node_safe; eauto].
     assert (Hin' : In (ERmNodeFin j true) et).
     { apply in_app3 in Hin; [exact Hin|]. destruct H3 as [[-> _]| ->]; simpl; [tauto|]. intros [X|[]]; discriminate. }
-    destruct (node_tail_rm _ _ _ _ _ _ _ _ _ _ Etail Hin') as (Hj & p & Hp & Hnp & Hip & Hd & Hv & Hc).
-    split; [exact Hj|]. subst et. exists ((e1 ++ e2) ++ e3 ++ p).
-    split; [rewrite <- !app_assoc; reflexivity|].
+    destruct (node_tail_rm _ _ _ _ _ _ _ _ _ _ _ _ Etail Hin') as (Hj & (m & Hm) & p & Hp & Hnp & Hip & Hd & Hv & Hc).
+    assert (Hget : get_node (n_id n) (w_nodes w) = Some m) by congruence.
+    split; [exact Hj|]. subst et. exists ((e1 ++ e2) ++ e3 ++ p), m.
+    split; [rewrite <- !app_assoc; reflexivity|]. split; [congruence|]. intros Hold.
     set (wi := apply_effs w ((e1 ++ e2) ++ e3 ++ p)).
     destruct (apply_effs_frame ((e1 ++ e2) ++ e3 ++ p) w) as (Fnow & Fpods & Fvas). fold wi in Fnow, Fpods, Fvas.
     assert (Finst : w_inst wi = w_inst w).
     { unfold wi. apply apply_effs_inst. rewrite !forallb_app, Hi1, Hi2, Hip.
       destruct H3 as [[-> _]| ->]; reflexivity. }
-    assert (Fnode : exists n', get_node (n_id n) (w_nodes wi) = Some n' /\ n_taint n' = true).
-    { assert (G : get_node (n_id n) (w_nodes (apply_effs w (e1 ++ e2))) = Some n)
+    assert (Fnode : exists n', get_node (n_id n) (w_nodes wi) = Some n' /\ n_taint n' = true /\ n_ready n' = n_ready m).
+    { assert (G : get_node (n_id n) (w_nodes (apply_effs w (e1 ++ e2))) = Some m)
         by (rewrite apply_effs_nodes by exact Hn12; exact Hget).
       unfold wi. rewrite (apply_effs_app (e1 ++ e2) (e3 ++ p)). rewrite (apply_effs_app e3 p).
       rewrite (apply_effs_nodes p) by exact Hnp.
       destruct H3 as [[-> Ht]| ->].
-      - exists n. split; [exact G|exact Ht].
-      - destruct (taint_applied _ _ _ G) as (n' & G' & Ht & _). exists n'. split; [exact G'|exact Ht]. }
-    destruct Fnode as (n' & Gn & Ht). exists n'. split; [exact Gn|]. left.
+      - exists m. split; [exact G|]. split; [exact (older_node_taint _ _ Hold Ht)|reflexivity].
+      - destruct (taint_applied _ _ _ G) as (n' & G' & Ht & Hr). exists n'. auto. }
+    destruct Fnode as (n' & Gn & Ht & Hrd). exists n'. split; [exact Gn|]. split; [exists m; auto|]. left.
     split; [exact Ht|]. split; [rewrite (drain_done_ext _ wi w) by assumption; exact Hd|].
     split.
     + rewrite (pending_vas_ext _ wi w) by assumption.
@@ -428,29 +451,52 @@ Proof.
     + intros Hhc. rewrite Finst. exact (Hc Hhc).
 Qed.
 
-Lemma node_gate_claim : forall w wi i, node_gate w wi i -> node_has_claim w -> node_fin_ok w wi i.
+Lemma node_gate_seen : forall w wi i nr, node_gate w wi i nr -> node_has_claim w -> node_fin_ok_seen w wi i nr.
 Proof.
-  intros w wi i (n & G & H) Hc. apply node_fin_ok_b_spec. unfold node_fin_ok_b. rewrite G.
+  intros w wi i nr (n & G & _ & H) Hc.
   apply node_has_claim_b_spec in Hc. unfold node_has_claim_b in Hc.
-  destruct H as [(Ht & Hd & Hv & Hi)|(Hr & Hi)].
-  - apply orb_true_iff. left. rewrite Ht, Hd, (Hi Hc). simpl. rewrite andb_true_r.
-    destruct Hv as [Hv|Hv]; [rewrite Hv; reflexivity | rewrite Hv; apply orb_true_r].
-  - apply orb_true_iff. right. rewrite Hr, Hi. reflexivity.
+  exists n. split; [exact G|]. destruct H as [(Ht & Hd & Hv & Hi)|Hs]; [left|right; exact Hs].
+  split; [exact Ht|]. split; [apply drain_done_spec; exact Hd|]. split; [|exact (Hi Hc)].
+  destruct Hv as [Hv|Hv]; [left; apply pending_none_spec; exact Hv | right; apply tgp_expired_spec; exact Hv].
+Qed.
+
+Lemma node_gate_claim : forall w wi i nr, node_gate w wi i nr ->
+  (forall m, get_node i (w_nodes w) = Some m -> n_ready m = nr) ->
+  node_has_claim w -> node_fin_ok w wi i.
+Proof.
+  intros w wi i nr Hg Hnr Hc. pose proof (node_gate_seen _ _ _ _ Hg Hc) as (n & G & H).
+  destruct Hg as (n0 & G0 & (m & Gm & Hr) & _). rewrite G in G0. inversion G0; subst n0.
+  exists n. split; [exact G|]. destruct H as [H|[Hs Hi]]; [left; exact H|right].
+  split; [|exact Hi]. rewrite Hr, (Hnr m Gm). exact Hs.
 Qed.
 
 Lemma instant_last : forall w pre e, instant w (pre ++ [e]) = apply_effs w pre.
 Proof. intros. unfold instant. rewrite removelast_last. reflexivity. Qed.
 
+Lemma node_reconcile_at_rm : forall w n f es r j,
+  node_reconcile_at w n f = (es, r) -> In (ERmNodeFin j true) es ->
+  j = n_id n /\ (exists pre, es = pre ++ [ERmNodeFin (n_id n) true]) /\
+  exists m, get_node (n_id n) (w_nodes w) = Some m /\
+    (older_node n m = true -> node_gate w (instant w es) (n_id n) (n_ready n)).
+Proof.
+  intros w n f es r j H Hin. unfold node_reconcile_at in H.
+  destruct (n_del n && n_fin n && n_managed n); [|inversion H; subst; contradiction].
+  destruct (node_finalize_rm _ _ _ _ _ _ H Hin) as (Hj & pre & m & Hes & G & Hg).
+  split; [exact Hj|]. split; [exists pre; exact Hes|]. exists m. split; [exact G|].
+  subst es. rewrite instant_last. exact Hg.
+Qed.
+
 Lemma node_reconcile_rm : forall w i f es r j,
   node_reconcile w i f = (es, r) -> In (ERmNodeFin j true) es ->
-  j = i /\ (exists pre, es = pre ++ [ERmNodeFin i true]) /\ node_gate w (instant w es) i.
+  j = i /\ (exists pre, es = pre ++ [ERmNodeFin i true]) /\
+  exists n, get_node i (w_nodes w) = Some n /\ node_gate w (instant w es) i (n_ready n).
 Proof.
   intros w i f es r j H Hin. unfold node_reconcile in H.
   destruct (get_node i (w_nodes w)) as [n|] eqn:G; [|inversion H; subst; contradiction].
-  destruct (n_del n && n_fin n && n_managed n); [|inversion H; subst; contradiction].
   pose proof (get_node_id _ _ _ G) as Hid. subst i.
-  destruct (node_finalize_rm _ _ _ _ _ _ H G Hin) as (Hj & pre & Hes & Hg).
-  split; [exact Hj|]. split; [exists pre; exact Hes|]. subst es. rewrite instant_last. exact Hg.
+  destruct (node_reconcile_at_rm _ _ _ _ _ _ H Hin) as (Hj & Hp & m & Gm & Hg).
+  rewrite G in Gm. inversion Gm; subst m.
+  split; [exact Hj|]. split; [exact Hp|]. exists n. split; [reflexivity|exact (Hg (older_node_refl n))].
 Qed.
 
 (* the node finalizer is removed only by a reconcile of that node, as its last write, and only if ... *)
@@ -459,8 +505,9 @@ Lemma node_finalizer_removed_only_if_l : forall w i f es r j,
   j = i /\ (exists pre, es = pre ++ [ERmNodeFin i true]) /\
   (node_has_claim w -> node_fin_ok w (instant w es) i).
 Proof.
-  intros w i f es r j H Hin. destruct (node_reconcile_rm _ _ _ _ _ _ H Hin) as (Hj & Hp & Hg).
-  split; [exact Hj|]. split; [exact Hp|]. intros Hc. exact (node_gate_claim _ _ _ Hg Hc).
+  intros w i f es r j H Hin. destruct (node_reconcile_rm _ _ _ _ _ _ H Hin) as (Hj & Hp & n & G & Hg).
+  split; [exact Hj|]. split; [exact Hp|]. intros Hc. apply (node_gate_claim _ _ _ _ Hg); [|exact Hc].
+  intros m Gm. rewrite G in Gm. inversion Gm. reflexivity.
 Qed.
 
 (* without a NodeClaim: cordoned, drained, attachments gone (or the not-ready shortcut) *)
@@ -472,11 +519,37 @@ Lemma node_finalizer_claimless_l : forall w i f es r j,
       ((forall v, In v (w_vas (instant w es)) -> ~ va_blocks (instant w es) i v) \/ tgp_expired w (instant w es)))
      \/ (n_ready n = false /\ inst_absent (w_inst (instant w es)) = true)).
 Proof.
-  intros w i f es r j H Hin. destruct (node_reconcile_rm _ _ _ _ _ _ H Hin) as (_ & _ & n & G & Hg).
-  exists n. split; [exact G|]. destruct Hg as [(Ht & Hd & Hv & _)|Hs]; [left|right; exact Hs].
+  intros w i f es r j H Hin. destruct (node_reconcile_rm _ _ _ _ _ _ H Hin) as (_ & _ & n0 & G0 & n & G & (m & Gm & Hr) & Hg).
+  rewrite G0 in Gm. inversion Gm; subst m.
+  exists n. split; [exact G|]. destruct Hg as [(Ht & Hd & Hv & _)|[Hs Hi]]; [left|right; rewrite Hr; auto].
   split; [exact Ht|]. split; [apply drain_done_spec; exact Hd|].
   destruct Hv as [Hv|Hv]; [left; apply pending_none_spec; exact Hv | right; apply tgp_expired_spec; exact Hv].
 Qed.
+
+(* the same when the reconcile is handed ANY older version of the node: only "not Ready" is then the older
+   version's word *)
+Lemma node_finalizer_stale_read_l : forall w old m f es r j,
+  get_node (n_id old) (w_nodes w) = Some m -> older_node old m = true ->
+  node_reconcile_at w old f = (es, r) -> In (ERmNodeFin j true) es ->
+  j = n_id old /\ (exists pre, es = pre ++ [ERmNodeFin (n_id old) true]) /\
+  (node_has_claim w -> node_fin_ok_seen w (instant w es) (n_id old) (n_ready old)).
+Proof.
+  intros w old m f es r j G Hold H Hin.
+  destruct (node_reconcile_at_rm _ _ _ _ _ _ H Hin) as (Hj & Hp & m' & Gm & Hg).
+  rewrite G in Gm. inversion Gm; subst m'.
+  split; [exact Hj|]. split; [exact Hp|]. intros Hc. exact (node_gate_seen _ _ _ _ (Hg Hold) Hc).
+Qed.
+
+(* ... and that weakening is real: a node that was NotReady in the cached version and is Ready now loses its
+   finalizer by the shortcut although it is neither cordoned nor drained *)
+Lemma stale_not_ready_witness_l :
+  let w := W 1000 [N 0 true true true false false true] (Some (C true true (Some 990) true true None ANone DNone VNone false)) None
+             [P 0 0 false false false None []] [] IGone false in
+  let old := N 0 true true true false false false in
+  older_node old (N 0 true true true false false true) = true /\
+  node_reconcile_at w old None = ([EProvGet PNotFound; ERmNodeFin 0 true], ROk) /\
+  node_fin_ok_b w (instant w [EProvGet PNotFound; ERmNodeFin 0 true]) 0 = false.
+Proof. vm_compute. repeat split; reflexivity. Qed.
 
 (* ------------------------------------------------------------------ NodeClaim lifecycle: the finalizer *)
 
@@ -499,7 +572,7 @@ Qed.
 
 Lemma apply_eff_claim : forall e w, claim_safe e = true -> claim_sim (w_claim w) (w_claim (apply_eff w e)).
 Proof.
-  intros e w H. destruct e as [ok|a|i ok|a|ok d v t|i ok|ok t|i ok|ok|ok|ok|ok]; simpl in *;
+  intros e w H. destruct e as [ok|a|i ok|a|ok d v t|i ok|ok t|i ok|ok|ok|ok|ok|ok|ok d v t]; simpl in *;
     try destruct ok; try destruct a; simpl in *; try discriminate; try apply claim_sim_refl;
     try (match goal with |- context[upd_node ?i ?g w] => destruct (upd_node_frame i g w) as (_&_&_&_&X&_); rewrite X; apply claim_sim_refl end; fail);
     unfold upd_claim; simpl; destruct (w_claim w); simpl; auto.
@@ -512,8 +585,13 @@ Proof.
   eapply claim_sim_trans; [apply apply_eff_claim; exact H1 | apply IH; exact H2].
 Qed.
 
-Lemma rm_claim_fin_shape : forall f e r, rm_claim_fin f = (e, r) -> e = [ERmClaimFin true] \/ e = [ERmClaimFin false].
-Proof. intros f e r H. unfold rm_claim_fin in H. destruct (fails f SRmClaimFin) as [[| |]|]; inversion H; auto. Qed.
+Lemma rm_claim_fin_shape : forall lk f e r, rm_claim_fin lk f = (e, r) ->
+  (e = [ERmClaimFin true] /\ lk = None) \/ e = [ERmClaimFin false].
+Proof.
+  intros lk f e r H. unfold rm_claim_fin, lfails in H.
+  destruct (fails f SRmClaimFin) as [[| |]|]; try (inversion H; auto; fail).
+  destruct lk as [[| |]|]; inversion H; auto.
+Qed.
 
 Definition no_rm (e : eff) : bool := match e with ERmClaimFin true => false | _ => true end.
 
@@ -551,18 +629,18 @@ Ltac splitin H :=
           | False => contradiction
           end).
 
-Lemma claim_finalize_rm : forall w c tdel f es r,
-  claim_finalize w c tdel f = (es, r) -> In (ERmClaimFin true) es ->
-  exists pre, es = pre ++ [ERmClaimFin true] /\ forallb quiet pre = true /\
+Lemma claim_finalize_rm : forall w c tdel lk f es r,
+  claim_finalize w c tdel lk f = (es, r) -> In (ERmClaimFin true) es ->
+  lk = None /\ exists pre, es = pre ++ [ERmClaimFin true] /\ forallb quiet pre = true /\
     (c_registered c = true -> claim_nodes w c = []) /\
     (c_pid c = true -> inst_absent (w_inst w) = true).
 Proof.
-  intros w c tdel f es r H Hin. unfold claim_finalize in H. cbv zeta in H.
+  intros w c tdel lk f es r H Hin. unfold claim_finalize in H. cbv zeta in H.
   destruct (negb (c_fin c)); [inversion H; subst; contradiction|].
   match type of H with context[match c_annot c with _ => _ end] => idtac end.
   set (A := match c_annot c, c_tgp c with
             | ANone, Some g =>
-                match fails f SAnnot with
+                match lfails lk f SAnnot with
                 | Some KNotFound => ([EAnnot false (tdel + g)], None)
                 | Some KConflict => ([EAnnot false (tdel + g)], Some RRequeue)
                 | Some KServer => ([EAnnot false (tdel + g)], Some RErr)
@@ -572,7 +650,7 @@ Proof.
             end) in H.
   assert (HA : forallb quiet (fst A) = true).
   { unfold A. destruct (c_annot c); try reflexivity. destruct (c_tgp c); try reflexivity.
-    destruct (fails f SAnnot) as [[| |]|]; reflexivity. }
+    destruct (lfails lk f SAnnot) as [[| |]|]; reflexivity. }
   destruct A as [e1 stop1]. simpl in HA.
   destruct stop1; [inversion H; subst; exfalso; apply (in_no_rm es); [apply quiet_forall; exact HA | exact Hin]|].
   set (B := if c_registered c
@@ -603,14 +681,14 @@ Proof.
     { inversion H; subst. exfalso. splitin Hin; exact (in_no_rm _ N1 Hin). }
     cbv zeta in H.
     set (E := if c_term c then ([], None)
-              else match fails f SPatchStatus with
+              else match lfails lk f SPatchStatus with
                    | Some KNotFound => ([EStatus false (c_drained c) (c_vol c) true], Some ROk)
                    | Some KConflict => ([EStatus false (c_drained c) (c_vol c) true], Some RRequeue)
                    | Some KServer => ([EStatus false (c_drained c) (c_vol c) true], Some RErr)
                    | None => ([EStatus true (c_drained c) (c_vol c) true], None)
                    end) in H.
     assert (HE : forallb quiet (fst E) = true).
-    { unfold E. destruct (c_term c); [reflexivity|]. destruct (fails f SPatchStatus) as [[| |]|]; reflexivity. }
+    { unfold E. destruct (c_term c); [reflexivity|]. destruct (lfails lk f SPatchStatus) as [[| |]|]; reflexivity. }
     destruct E as [e3 stop3]. simpl in HE.
     assert (N3 : forallb no_rm e3 = true) by (apply quiet_forall; exact HE).
     assert (Hq : forallb quiet ((e1 ++ [EProvDelete PNotFound]) ++ e3) = true).
@@ -619,18 +697,20 @@ Proof.
     { inversion H; subst. exfalso. splitin Hin; [exact (in_no_rm _ N1 Hin) | exact (in_no_rm _ N3 Hin)]. }
     destruct (fst (prov_delete (w_inst w))) eqn:Epd.
     + inversion H; subst. exfalso. splitin Hin; [exact (in_no_rm _ N1 Hin) | exact (in_no_rm _ N3 Hin)].
-    + destruct (rm_claim_fin f) as [e r'] eqn:Erm. inversion H; subst. clear H.
+    + destruct (rm_claim_fin lk f) as [e r'] eqn:Erm. inversion H; subst. clear H.
       apply rm_claim_fin_shape in Erm.
-      exists ((e1 ++ [EProvDelete PNotFound]) ++ e3). split.
-      * destruct Erm as [-> | ->]; [simpl; rewrite <- !app_assoc; reflexivity|].
-        exfalso. splitin Hin; [exact (in_no_rm _ N1 Hin) | exact (in_no_rm _ N3 Hin)].
-      * split; [exact Hq|]. split; [exact Hreg|]. intros _.
-        destruct (w_inst w); simpl in *; try discriminate; reflexivity.
+      destruct Erm as [[-> Hlk] | ->];
+        [|exfalso; splitin Hin; [exact (in_no_rm _ N1 Hin) | exact (in_no_rm _ N3 Hin)]].
+      split; [exact Hlk|].
+      exists ((e1 ++ [EProvDelete PNotFound]) ++ e3). split; [simpl; rewrite <- !app_assoc; reflexivity|].
+      split; [exact Hq|]. split; [exact Hreg|]. intros _.
+      destruct (w_inst w); simpl in *; try discriminate; reflexivity.
     + inversion H; subst. exfalso. splitin Hin; [exact (in_no_rm _ N1 Hin) | exact (in_no_rm _ N3 Hin)].
-  - destruct (rm_claim_fin f) as [e r'] eqn:Erm. inversion H; subst. clear H.
-    apply rm_claim_fin_shape in Erm. exists e1. split.
-    + destruct Erm as [-> | ->]; [reflexivity|]. exfalso. splitin Hin; exact (in_no_rm _ N1 Hin).
-    + split; [exact HA|]. split; [exact Hreg|]. discriminate.
+  - destruct (rm_claim_fin lk f) as [e r'] eqn:Erm. inversion H; subst. clear H.
+    apply rm_claim_fin_shape in Erm.
+    destruct Erm as [[-> Hlk] | ->]; [|exfalso; splitin Hin; exact (in_no_rm _ N1 Hin)].
+    split; [exact Hlk|]. exists e1. split; [reflexivity|].
+    split; [exact HA|]. split; [exact Hreg|]. discriminate.
 Qed.
 
 Lemma claim_launch_no_rm : forall w c f es r k, claim_launch w c f = (es, r, k) -> forallb no_rm es = true.
@@ -655,8 +735,8 @@ Proof.
   destruct (w_claim w) as [c|] eqn:Ec; [|inversion H; subst; contradiction].
   destruct (negb (c_managed c)); [inversion H; subst; contradiction|].
   destruct (c_del c) as [t|] eqn:Ed.
-  - destruct (claim_finalize w c t f) as [e r'] eqn:Ef. inversion H; subst. clear H.
-    destruct (claim_finalize_rm _ _ _ _ _ _ Ef Hin) as (pre & Hes & Hq & Hr & Hp).
+  - destruct (claim_finalize w c t None f) as [e r'] eqn:Ef. inversion H; subst. clear H.
+    destruct (claim_finalize_rm _ _ _ _ _ _ _ Ef Hin) as (_ & pre & Hes & Hq & Hr & Hp).
     exists c, t, pre. repeat split; auto.
   - exfalso. apply (in_no_rm es); [eapply claim_launch_no_rm; exact H | exact Hin].
 Qed.
@@ -691,36 +771,18 @@ Proof.
   - exists c. split; [exact Hc|]. intros Hpid. rewrite Hi. exact (Hp Hpid).
 Qed.
 
-Lemma claim_finalizer_removed_only_if_partial_l : forall w f es r k,
-  launched_persisted w ->
-  claim_reconcile w f = (es, r, k) -> In (ERmClaimFin true) es ->
-  (exists pre, es = pre ++ [ERmClaimFin true]) /\ claim_fin_ok (instant w es).
-Proof.
-  intros w f es r k Hlp H Hin.
-  destruct (claim_finalizer_nodes_gone_l _ _ _ _ _ H Hin) as (Hpre & Hng & c & Hc & Hp).
-  split; [exact Hpre|]. split; [exact Hng|].
-  unfold claim_instance_gone. intros Hne.
-  destruct (claim_reconcile_rm _ _ _ _ _ H Hin) as (c0 & t & pre & Hc0 & _ & Hes & Hq & _ & _).
-  subst es. rewrite instant_last in *.
-  destruct (claim_instant _ _ _ Hc0 Hq) as (_ & _ & _ & _ & _ & _ & _ & Hi). rewrite Hi in *.
-  unfold launched_persisted, launched_persisted_b in Hlp. rewrite Hc in Hlp.
-  destruct (c_pid c) eqn:Ep.
-  - specialize (Hp eq_refl). destruct (w_inst w); simpl in Hp; try discriminate; [exfalso; apply Hne; reflexivity|reflexivity].
-  - rewrite andb_false_r, orb_false_r in Hlp. destruct (w_inst w); simpl in Hlp; try discriminate. exfalso. apply Hne. reflexivity.
-Qed.
-
 (* FINDING: Create succeeded, the status patch that records the provider id failed, the claim is deleted before the
    next reconcile: finalize sees an empty provider id, skips the provider and removes the finalizer. *)
 Definition leak_w0 : world :=
-  W 1000 [] (Some (C true false None false false None ANone DNone VNone false)) [] [] INone false.
+  W 1000 [] (Some (C true false None false false None ANone DNone VNone false)) None [] [] INone false.
 Definition leak_ops : list op := [RClaim (Some (SPatchStatusL, KServer)); EnvDelClaim].
 
 Lemma claim_finalizer_removed_only_if_refuted_l :
-  launched_persisted leak_w0 /\
+  accounted leak_w0 /\ finalizer_before_launch leak_w0 /\
   let w := run leak_w0 leak_ops in
   exists es r k, claim_reconcile w None = (es, r, k) /\ In (ERmClaimFin true) es /\ ~ claim_fin_ok (instant w es).
 Proof.
-  split; [reflexivity|]. cbv zeta.
+  split; [reflexivity|]. split; [reflexivity|]. cbv zeta.
   exists [ERmClaimFin true], ROk, true. split; [vm_compute; reflexivity|]. split; [left; reflexivity|].
   intros H. apply claim_fin_ok_b_spec in H. vm_compute in H. discriminate.
 Qed.
@@ -732,44 +794,10 @@ Definition plain (e : eff) : bool :=
 Definition no_create (e : eff) : bool :=
   match e with EProvCreate true | EPersist true => false | _ => true end.
 
-(* [b]: a claim object existed when the step began *)
-Definition G (b : bool) (w : world) : Prop :=
-  launched_persisted_b w = true /\ (b = true -> w_claim w = None -> inst_absent (w_inst w) = true).
-
-Lemma G_init : forall w, launched_persisted w -> G (is_some (w_claim w)) w.
-Proof. intros w H. split; [exact H|]. intros Hb Hn. rewrite Hn in Hb. discriminate. Qed.
-
-Lemma G_orphaned : forall w w', G (is_some (w_claim w)) w' -> orphaned w w' = false.
-Proof.
-  intros w w' [_ H]. unfold orphaned. destruct (is_some (w_claim w)); [|reflexivity].
-  destruct (w_claim w') eqn:E; [reflexivity|]. rewrite (H eq_refl eq_refl). reflexivity.
-Qed.
-
-Lemma plain_eff_G : forall e b w, plain e = true -> G b w -> G b (apply_eff w e).
-Proof.
-  intros e b w Hp [HJ HG]. unfold G, launched_persisted_b in *.
-  destruct e as [ok|a|i ok|a|ok d v t|i ok|ok t|i ok|ok|ok|ok|ok]; simpl in *;
-    try destruct ok; try destruct a; simpl in *; try discriminate; auto;
-    try (match goal with |- context[upd_node ?i ?g w] =>
-           destruct (upd_node_frame i g w) as (_&_&_&X&Y&_); rewrite X, Y; auto end; fail);
-    unfold upd_claim, set_inst, api_delete_claim in *; simpl in *;
-    destruct (w_claim w) as [c|]; simpl in *; auto;
-    try (destruct (w_inst w); simpl in *; auto; fail);
-    destruct (c_del c), (c_fin c), (c_pid c), (w_inst w); simpl in *;
-    split; auto; try discriminate; intros; try discriminate; auto.
-Qed.
-
-Lemma plain_effs_G : forall es b w, forallb plain es = true -> G b w -> G b (apply_effs w es).
-Proof.
-  induction es as [|e es IH]; intros b w H Hg; simpl in *; [exact Hg|].
-  apply andb_prop in H. destruct H as [H1 H2]. unfold apply_effs in *. simpl.
-  apply IH; [exact H2|]. apply plain_eff_G; assumption.
-Qed.
-
 Lemma quiet_plain : forall es, forallb quiet es = true -> forallb plain es = true.
 Proof.
   induction es as [|e es IH]; simpl; auto. intros H. apply andb_prop in H. destruct H as [H1 H2].
-  rewrite (IH H2), andb_true_r. unfold quiet in H1. destruct e as [ok|a|i ok|a|ok d v t|i ok|ok t|i ok|ok|ok|ok|ok];
+  rewrite (IH H2), andb_true_r. unfold quiet in H1. destruct e as [ok|a|i ok|a|ok d v t|i ok|ok t|i ok|ok|ok|ok|ok|ok|ok d v t];
     try destruct ok; try destruct a; simpl in *; auto.
 Qed.
 
@@ -777,14 +805,14 @@ Lemma no_create_no_rm_plain : forall es, forallb no_create es = true -> forallb 
 Proof.
   induction es as [|e es IH]; simpl; auto. intros H1 H2.
   apply andb_prop in H1. destruct H1 as [a1 a2]. apply andb_prop in H2. destruct H2 as [b1 b2].
-  rewrite (IH a2 b2), andb_true_r. destruct e as [ok|a|i ok|a|ok d v t|i ok|ok t|i ok|ok|ok|ok|ok];
+  rewrite (IH a2 b2), andb_true_r. destruct e as [ok|a|i ok|a|ok d v t|i ok|ok t|i ok|ok|ok|ok|ok|ok|ok d v t];
     try destruct ok; try destruct a; simpl in *; auto.
 Qed.
 
 Lemma not_no_rm_in : forall es, forallb no_rm es = false -> In (ERmClaimFin true) es.
 Proof.
   induction es as [|e es IH]; simpl; [discriminate|]. intros H. apply andb_false_iff in H. destruct H as [H|H].
-  - left. destruct e as [ok|a|i ok|a|ok d v t|i ok|ok t|i ok|ok|ok|ok|ok]; try destruct ok; simpl in H; try discriminate. reflexivity.
+  - left. destruct e as [ok|a|i ok|a|ok d v t|i ok|ok t|i ok|ok|ok|ok|ok|ok|ok d v t]; try destruct ok; simpl in H; try discriminate. reflexivity.
   - right. apply IH. exact H.
 Qed.
 
@@ -801,59 +829,58 @@ Proof.
   destruct (filter _ _); [apply X|]. destruct (elapsed (w_now w) dl); [apply X|reflexivity].
 Qed.
 
-Lemma rm_node_fin_plain : forall i f, forallb plain (fst (rm_node_fin i f)) = true.
-Proof. intros i f. unfold rm_node_fin. destruct (fails f SRmNodeFin) as [[| |]|]; reflexivity. Qed.
+Lemma rm_node_fin_plain : forall i cur f, forallb plain (fst (rm_node_fin i cur f)) = true.
+Proof. intros i cur f. unfold rm_node_fin. destruct (fails f SRmNodeFin) as [[| |]|]; try reflexivity. destruct cur; reflexivity. Qed.
 
-Lemma node_tail_plain : forall w i f oc dl cgone stale, forallb plain (fst (node_tail w i f oc dl cgone stale)) = true.
+Lemma node_tail_plain : forall w i cur f oc tw dl cgone stale, forallb plain (fst (node_tail w i cur f oc tw dl cgone stale)) = true.
 Proof.
-  intros w i f oc dl cgone stale. unfold node_tail. cbv zeta.
+  intros w i cur f oc tw dl cgone stale. unfold node_tail. cbv zeta.
   match goal with |- context[await_drain ?hc i w f dl ?cs] =>
     pose proof (await_drain_plain hc i w f dl cs) as Ha; set (a := await_drain hc i w f dl cs) in * end.
-  assert (H4 : forall X : list eff * option res,
-     X = (if is_some oc && negb (conds_eqb (match oc with Some c => (c_drained c, c_vol c, c_term c) | None => (DNone, VNone, false) end) (a_conds a))
-          then let '(d, v, t) := a_conds a in
-               match status_patch_ans f cgone stale with
-               | PatchOk => ([EStatus true d v t], None)
-               | PatchNotFound => ([EStatus false d v t], None)
-               | PatchConflict => ([EStatus false d v t], Some RRequeue)
-               | PatchOther => ([EStatus false d v t], Some RErr)
-               end
-          else ([], None)) -> forallb plain (fst X) = true).
-  { intros X ->. destruct (is_some oc && negb _); [|reflexivity].
-    destruct (a_conds a) as [[d v] t]. destruct (status_patch_ans f cgone stale); reflexivity. }
-  match goal with |- context[let '(e4, stop4) := ?X in _] => specialize (H4 X eq_refl); destruct X as [e4 stop4] end.
+  match goal with |- context[let '(e4, stop4) := ?X in _] =>
+    assert (H4 : forallb plain (fst X) = true);
+      [destruct (is_some oc && negb _); [|reflexivity];
+       destruct (a_conds a) as [[d v] t]; destruct tw; destruct (status_patch_ans f cgone stale); reflexivity
+      | destruct X as [e4 stop4]] end.
   simpl in H4. destruct stop4; simpl; [rewrite forallb_app, Ha, H4; reflexivity|].
   destruct (a_res a); simpl; try (rewrite forallb_app, Ha, H4; reflexivity).
-  pose proof (rm_node_fin_plain i f) as Hr. destruct (rm_node_fin i f) as [e r]. simpl in *.
+  pose proof (rm_node_fin_plain i cur f) as Hr. destruct (rm_node_fin i cur f) as [e r]. simpl in *.
   rewrite !forallb_app, Ha, H4, Hr. reflexivity.
 Qed.
 
-Lemma node_reconcile_plain : forall w i f, forallb plain (fst (node_reconcile w i f)) = true.
+Lemma node_reconcile_at_plain : forall w n f, forallb plain (fst (node_reconcile_at w n f)) = true.
 Proof.
-  intros w i f. unfold node_reconcile. destruct (get_node i (w_nodes w)) as [n|]; [|reflexivity].
+  intros w n f. unfold node_reconcile_at.
   destruct (n_del n && n_fin n && n_managed n); [|reflexivity].
   unfold node_finalize. cbv zeta. destruct (fails f SListClaims); [reflexivity|].
-  assert (H1 : forallb plain (fst (fst (fst (del_claim_step (visible_claim w) f)))) = true).
+  assert (H1 : forallb plain (fst (fst (fst (del_claim_step (visible_claim w) (on_twin w) f)))) = true).
   { unfold del_claim_step. destruct (visible_claim w) as [c|]; [|reflexivity].
-    destruct (is_some (c_del c)); [reflexivity|]. destruct (fails f SDelClaim) as [[| |]|]; reflexivity. }
-  destruct (del_claim_step (visible_claim w) f) as [[[e1 stop1] stale] cgone]. simpl in H1.
+    destruct (is_some (c_del c)); [reflexivity|]. destruct (on_twin w); destruct (fails f SDelClaim) as [[| |]|]; reflexivity. }
+  destruct (del_claim_step (visible_claim w) (on_twin w) f) as [[[e1 stop1] stale] cgone]. simpl in H1.
   destruct stop1; [exact H1|].
   assert (H2 : forallb plain (fst (not_ready_step n (w_inst w) f)) = true).
   { unfold not_ready_step. destruct (n_ready n); [reflexivity|]. destruct (fails f SProvGet); [reflexivity|].
     destruct (prov_get (w_inst w)); reflexivity. }
   destruct (not_ready_step n (w_inst w) f) as [e2 short]. simpl in H2.
   destruct short as [[|]|].
-  - pose proof (rm_node_fin_plain (n_id n) f) as Hr. destruct (rm_node_fin (n_id n) f) as [e r]. simpl in *.
+  - pose proof (rm_node_fin_plain (n_id n) (get_node (n_id n) (w_nodes w)) f) as Hr. destruct (rm_node_fin (n_id n) (get_node (n_id n) (w_nodes w)) f) as [e r]. simpl in *.
     rewrite !forallb_app, H1, H2, Hr. reflexivity.
   - simpl. rewrite forallb_app, H1, H2. reflexivity.
   - destruct (term_time (visible_claim w)) as [dl|]; [|simpl; rewrite forallb_app, H1, H2; reflexivity].
-    assert (H3 : forallb plain (fst (taint_step n f)) = true).
-    { unfold taint_step. destruct (n_taint n && n_lbl n); [reflexivity|]. destruct (fails f STaint) as [[| |]|]; reflexivity. }
-    destruct (taint_step n f) as [e3 stop3]. simpl in H3.
+    assert (H3 : forallb plain (fst (taint_step n (get_node (n_id n) (w_nodes w)) f)) = true).
+    { unfold taint_step. destruct (n_taint n && n_lbl n); [reflexivity|]. destruct (fails f STaint) as [[| |]|]; try reflexivity.
+      destruct (get_node (n_id n) (w_nodes w)) as [m|]; [|reflexivity]. destruct (node_eqb n m); reflexivity. }
+    destruct (taint_step n (get_node (n_id n) (w_nodes w)) f) as [e3 stop3]. simpl in H3.
     destruct stop3; [simpl; rewrite !forallb_app, H1, H2, H3; reflexivity|].
-    pose proof (node_tail_plain w (n_id n) f (visible_claim w) dl cgone stale) as Ht.
-    destruct (node_tail w (n_id n) f (visible_claim w) dl cgone stale) as [et r]. simpl in *.
+    pose proof (node_tail_plain w (n_id n) (get_node (n_id n) (w_nodes w)) f (visible_claim w) (on_twin w) dl cgone stale) as Ht.
+    destruct (node_tail w (n_id n) (get_node (n_id n) (w_nodes w)) f (visible_claim w) (on_twin w) dl cgone stale) as [et r]. simpl in *.
     rewrite !forallb_app, H1, H2, H3, Ht. reflexivity.
+Qed.
+
+Lemma node_reconcile_plain : forall w i f, forallb plain (fst (node_reconcile w i f)) = true.
+Proof.
+  intros w i f. unfold node_reconcile. destruct (get_node i (w_nodes w)) as [n|]; [|reflexivity].
+  apply node_reconcile_at_plain.
 Qed.
 
 Lemma delete_nodes_no_create : forall f ns, forallb no_create (fst (delete_nodes f ns)) = true.
@@ -864,13 +891,13 @@ Proof.
     destruct (delete_nodes f ns) as [e b]; simpl in *; exact IH.
 Qed.
 
-Lemma claim_finalize_no_create : forall w c t f, forallb no_create (fst (claim_finalize w c t f)) = true.
+Lemma claim_finalize_no_create : forall w c t lk f, forallb no_create (fst (claim_finalize w c t lk f)) = true.
 Proof.
-  intros w c t f. unfold claim_finalize. cbv zeta. destruct (negb (c_fin c)); [reflexivity|].
+  intros w c t lk f. unfold claim_finalize. cbv zeta. destruct (negb (c_fin c)); [reflexivity|].
   assert (HA : forall X : list eff * option res,
     X = (match c_annot c, c_tgp c with
          | ANone, Some g =>
-             match fails f SAnnot with
+             match lfails lk f SAnnot with
              | Some KNotFound => ([EAnnot false (t + g)], None)
              | Some KConflict => ([EAnnot false (t + g)], Some RRequeue)
              | Some KServer => ([EAnnot false (t + g)], Some RErr)
@@ -879,7 +906,7 @@ Proof.
          | _, _ => ([], None)
          end) -> forallb no_create (fst X) = true).
   { intros X ->. destruct (c_annot c); try reflexivity. destruct (c_tgp c); try reflexivity.
-    destruct (fails f SAnnot) as [[| |]|]; reflexivity. }
+    destruct (lfails lk f SAnnot) as [[| |]|]; reflexivity. }
   match goal with |- context[let '(e1, stop1) := ?X in _] => specialize (HA X eq_refl); destruct X as [e1 stop1] end.
   simpl in HA. destruct stop1; [exact HA|].
   assert (HB : forall X : list eff * option res,
@@ -898,137 +925,48 @@ Proof.
     destruct hard; [exact Hd|]. destruct (claim_nodes w c); exact Hd. }
   match goal with |- context[let '(e2, stop2) := ?X in _] => specialize (HB X eq_refl); destruct X as [e2 stop2] end.
   simpl in HB. destruct stop2; [simpl; rewrite forallb_app, HA, HB; reflexivity|].
-  pose proof (fun X => proj1 (forallb_forall no_create (fst (rm_claim_fin f))) X) as _.
-  assert (HR : forallb no_create (fst (rm_claim_fin f)) = true).
-  { unfold rm_claim_fin. destruct (fails f SRmClaimFin) as [[| |]|]; reflexivity. }
+  pose proof (fun X => proj1 (forallb_forall no_create (fst (rm_claim_fin lk f))) X) as _.
+  assert (HR : forallb no_create (fst (rm_claim_fin lk f)) = true).
+  { unfold rm_claim_fin. destruct (lfails lk f SRmClaimFin) as [[| |]|]; reflexivity. }
   destruct (c_pid c).
   - destruct (fails f SProvDelete); [simpl; rewrite !forallb_app, HA, HB; reflexivity|].
     assert (HE : forall X : list eff * option res,
       X = (if c_term c then ([], None)
-           else match fails f SPatchStatus with
+           else match lfails lk f SPatchStatus with
                 | Some KNotFound => ([EStatus false (c_drained c) (c_vol c) true], Some ROk)
                 | Some KConflict => ([EStatus false (c_drained c) (c_vol c) true], Some RRequeue)
                 | Some KServer => ([EStatus false (c_drained c) (c_vol c) true], Some RErr)
                 | None => ([EStatus true (c_drained c) (c_vol c) true], None)
                 end) -> forallb no_create (fst X) = true).
-    { intros X ->. destruct (c_term c); [reflexivity|]. destruct (fails f SPatchStatus) as [[| |]|]; reflexivity. }
+    { intros X ->. destruct (c_term c); [reflexivity|]. destruct (lfails lk f SPatchStatus) as [[| |]|]; reflexivity. }
     match goal with |- context[let '(e3, stop3) := ?X in _] => specialize (HE X eq_refl); destruct X as [e3 stop3] end.
     simpl in HE.
     assert (HP : forallb no_create [EProvDelete (fst (prov_delete (w_inst w)))] = true) by (destruct (w_inst w); reflexivity).
     destruct stop3; [simpl fst; rewrite !forallb_app, HA, HB, HP, HE; reflexivity|].
     destruct (fst (prov_delete (w_inst w))) eqn:Ep; try (simpl fst; rewrite !forallb_app, HA, HB, HE; reflexivity).
-    destruct (rm_claim_fin f) as [e r]. simpl in *. rewrite !forallb_app, HA, HB, HE, HR. reflexivity.
-  - destruct (rm_claim_fin f) as [e r]. simpl in *. rewrite !forallb_app, HA, HB, HR. reflexivity.
-Qed.
-
-Lemma G_set_inst : forall b w k, G b w -> G b (set_inst (w_inst w) k w).
-Proof. intros b w k H. exact H. Qed.
-
-Lemma persists_faults : forall f, persists (RClaim f) = true -> fails f SPatchMeta = None /\ fails f SPatchStatusL = None.
-Proof.
-  intros [[s k]|] H; [|split; reflexivity]. destruct s; simpl in *; try discriminate; split; reflexivity.
-Qed.
-
-Lemma launch_G : forall w c f, w_claim w = Some c -> c_del c = None -> launched_persisted w ->
-  persists (RClaim f) = true ->
-  G true (fst (step w (RClaim f))).
-Proof.
-  intros w c f Hc Hd HJ Hp. destruct (persists_faults f Hp) as [F1 F2].
-  unfold launched_persisted, launched_persisted_b in HJ. rewrite Hc in HJ.
-  destruct w as [now ns cl ps vs s k]. simpl in *. subst cl.
-  destruct c as [m fin del pid reg tgp an dr vo te]. simpl in *. subst del.
-  unfold step, G, launched_persisted_b. simpl. unfold claim_reconcile. simpl.
-  destruct m; simpl; [|split; [exact HJ|discriminate]].
-  unfold claim_launch. cbv zeta. simpl. rewrite F1, F2.
-  destruct fin, pid, k, s; simpl in *; try discriminate;
-    try (destruct (fails f SAddFin) as [[| |]|]; simpl);
-    try (destruct (fails f SProvCreate); simpl);
-    split; auto; discriminate.
-Qed.
-
-Lemma env_G : forall w o, is_env o = true -> launched_persisted w -> G (is_some (w_claim w)) (env_step w o).
-Proof.
-  intros w o He HJ. unfold launched_persisted, launched_persisted_b in HJ. unfold G, launched_persisted_b.
-  destruct o; simpl in He; try discriminate; simpl;
-    try (match goal with |- context[upd_node ?i ?g w] =>
-           destruct (upd_node_frame i g w) as (_&_&_&X&Y&_); rewrite X, Y end;
-         split; [exact HJ|]; intros Hb Hn; rewrite Hn in Hb; discriminate);
-    try (unfold upd_pods; simpl; split; [exact HJ|]; intros Hb Hn; rewrite Hn in Hb; discriminate);
-    try (destruct (existsb _ (w_pods w)); unfold upd_pods; simpl; split; try exact HJ; intros Hb Hn; rewrite Hn in Hb; discriminate);
-    try (split; [exact HJ|]; intros Hb Hn; rewrite Hn in Hb; discriminate);
-    unfold upd_claim, set_inst, api_delete_claim; simpl;
-    destruct (w_claim w) as [c|]; simpl in *; try (split; [reflexivity|discriminate]);
-    try (destruct (c_del c), (c_fin c), (c_pid c), (w_inst w); simpl in *; split; auto; try discriminate; intros; try discriminate; auto; fail).
-  - (* EnvRegister *)
-    destruct (c_pid c && negb match w_nodes w with [] => true | _ :: _ => false end); simpl; split; auto; discriminate.
-Qed.
-
-Lemma step_G : forall w o, launched_persisted w -> persists o = true -> G (is_some (w_claim w)) (fst (step w o)).
-Proof.
-  intros w o HJ Hp. unfold step. destruct (is_env o) eqn:He; [simpl; apply env_G; assumption|].
-  destruct o as [i f|f| | | | | | | | | | | |]; simpl in He; try discriminate.
-  - (* node termination *)
-    simpl. pose proof (node_reconcile_plain w i f) as Hpl. destruct (node_reconcile w i f) as [es r]. simpl in *.
-    apply G_set_inst. apply plain_effs_G; [exact Hpl | apply G_init; exact HJ].
-  - (* lifecycle *)
-    destruct (w_claim w) as [c|] eqn:Ec.
-    2:{ simpl. unfold claim_reconcile. rewrite Ec. simpl. split; [exact HJ|discriminate]. }
-    destruct (c_del c) as [t|] eqn:Ed.
-    2:{ simpl is_some. pose proof (launch_G w c f Ec Ed HJ Hp) as X. unfold step in X. simpl in X. exact X. }
-    simpl. unfold claim_reconcile. rewrite Ec. destruct (negb (c_managed c)).
-    { simpl. split; [exact HJ|]. unfold set_inst. simpl. rewrite Ec. discriminate. }
-    rewrite Ed. pose proof (claim_finalize_no_create w c t f) as Hnc.
-    destruct (claim_finalize w c t f) as [es r] eqn:Ef. simpl in Hnc. apply G_set_inst.
-    destruct (forallb no_rm es) eqn:Hrm.
-    + apply plain_effs_G; [apply no_create_no_rm_plain; assumption|]. pose proof (G_init w HJ) as X. rewrite Ec in X. exact X.
-    + apply not_no_rm_in in Hrm.
-      destruct (claim_finalize_rm _ _ _ _ _ _ Ef Hrm) as (pre & Hes & Hq & _ & Hpid). subst es.
-      rewrite apply_effs_app.
-      destruct (claim_instant _ _ _ Ec Hq) as (c' & Hc' & _ & e2 & e3 & _ & _ & Hi).
-      assert (Gi : G true (apply_effs w pre)).
-      { apply plain_effs_G; [apply quiet_plain; exact Hq|]. pose proof (G_init w HJ) as X. rewrite Ec in X. exact X. }
-      unfold apply_effs at 1. simpl. unfold upd_claim. rewrite Hc'. rewrite e3, Ed. simpl.
-      unfold G, launched_persisted_b. simpl. split; [reflexivity|]. intros _ _. rewrite Hi.
-      destruct (c_pid c) eqn:Ep; [exact (Hpid eq_refl)|].
-      unfold launched_persisted, launched_persisted_b in HJ. rewrite Ec, Ep in HJ.
-      rewrite andb_false_r, orb_false_r in HJ. destruct (w_inst w); simpl in *; try discriminate; reflexivity.
+    destruct (rm_claim_fin lk f) as [e r]. simpl in *. rewrite !forallb_app, HA, HB, HE, HR. reflexivity.
+  - destruct (rm_claim_fin lk f) as [e r]. simpl in *. rewrite !forallb_app, HA, HB, HR. reflexivity.
 Qed.
 
 Lemma run_snoc : forall w ops o, run w (ops ++ [o]) = fst (step (run w ops) o).
 Proof. intros. unfold run. rewrite fold_left_app. reflexivity. Qed.
 
-Lemma run_persisted : forall ops w, launched_persisted w -> forallb persists ops = true -> launched_persisted (run w ops).
-Proof.
-  induction ops as [|o ops IH]; intros w HJ Hp; simpl in *; [exact HJ|].
-  apply andb_prop in Hp. destruct Hp as [H1 H2]. apply IH; [|exact H2]. exact (proj1 (step_G w o HJ H1)).
-Qed.
-
-(* a completed deletion never orphans the instance, as long as every launch persisted what it created *)
-Lemma no_orphan_partial_l : forall w0 ops o,
-  launched_persisted w0 -> forallb persists (ops ++ [o]) = true ->
-  orphaned (run w0 ops) (run w0 (ops ++ [o])) = false.
-Proof.
-  intros w0 ops o HJ Hp. rewrite forallb_app in Hp. apply andb_prop in Hp. destruct Hp as [H1 H2].
-  simpl in H2. rewrite andb_true_r in H2. rewrite run_snoc. apply G_orphaned. apply step_G; [|exact H2].
-  apply run_persisted; assumption.
-Qed.
-
 Lemma no_orphan_refuted_l :
-  launched_persisted leak_w0 /\
+  accounted leak_w0 /\
   orphaned (run leak_w0 leak_ops) (run leak_w0 (leak_ops ++ [RClaim None])) = true.
 Proof. split; vm_compute; reflexivity. Qed.
 
 (* non-vacuity: a complete happy path — both finalizers come off, in order, and the instance is gone *)
 Definition happy_w0 : world :=
   W 1000 [N 0 true true false false false true]
-    (Some (C true true None true true (Some 30) ANone DNone VNone false))
+    (Some (C true true None true true (Some 30) ANone DNone VNone false)) None
     [P 0 0 false false false None [1]] [V 0 0 (Some 1)] IRunning false.
 Definition happy_ops : list op :=
   [EnvDelClaim; RClaim None; RNode 0 None; EnvPodTerm 0; EnvTick 5; RNode 0 None; EnvPodGone 0; RNode 0 None;
    EnvVAGone 0; RNode 0 None; EnvInstGone; RNode 0 None; RClaim None].
 
 Lemma happy_path :
-  launched_persisted happy_w0 /\
+  accounted happy_w0 /\
   w_nodes (run happy_w0 happy_ops) = [] /\ w_claim (run happy_w0 happy_ops) = None /\
   w_inst (run happy_w0 happy_ops) = IGone /\
   snd (step (run happy_w0 (firstn 11 happy_ops)) (RNode 0 None)) = ([EProvDelete PNotFound; ERmNodeFin 0 true], ROk) /\
@@ -1083,7 +1021,7 @@ Lemma apply_eff_node_fin : forall i e w, nfin_safe i e = true -> node_has_fin i 
 Proof.
   intros i e w Hs H.
   assert (Hc : forall g, node_has_fin i (upd_claim g w) = node_has_fin i w) by (intros g; reflexivity).
-  destruct e as [ok|a|j ok|a|ok d v t|j ok|ok t|j ok|ok|ok|ok|ok]; simpl in *;
+  destruct e as [ok|a|j ok|a|ok d v t|j ok|ok t|j ok|ok|ok|ok|ok|ok|ok d v t]; simpl in *;
     try destruct ok; try destruct a; simpl in *; try exact H; try (rewrite Hc; exact H).
   - apply upd_node_fin; [intros n n' E; inversion E; reflexivity | intros n Hf; eexists; split; [reflexivity|exact Hf] | exact H].
   - (* the finalizer of another node *)
@@ -1111,7 +1049,7 @@ Qed.
 Lemma not_nfin_safe_in : forall i es, forallb (nfin_safe i) es = false -> In (ERmNodeFin i true) es.
 Proof.
   intros i es. induction es as [|e es IH]; simpl; [discriminate|]. intros H. apply andb_false_iff in H. destruct H as [H|H].
-  - left. destruct e as [ok|a|j ok|a|ok d v t|j ok|ok t|j ok|ok|ok|ok|ok]; try destruct ok; simpl in H; try discriminate.
+  - left. destruct e as [ok|a|j ok|a|ok d v t|j ok|ok t|j ok|ok|ok|ok|ok|ok|ok d v t]; try destruct ok; simpl in H; try discriminate.
     rewrite negb_false_iff in H. apply Z.eqb_eq in H. subst. reflexivity.
   - right. apply IH. exact H.
 Qed.
@@ -1121,7 +1059,7 @@ Definition no_rmnode (e : eff) : bool := match e with ERmNodeFin _ true => false
 Lemma no_rmnode_nfin_safe : forall i es, forallb no_rmnode es = true -> forallb (nfin_safe i) es = true.
 Proof.
   intros i es. induction es as [|e es IH]; simpl; auto. intros H. apply andb_prop in H. destruct H as [H1 H2].
-  rewrite (IH H2), andb_true_r. destruct e as [ok|a|j ok|a|ok d v t|j ok|ok t|j ok|ok|ok|ok|ok]; try destruct ok; simpl in *; auto; discriminate.
+  rewrite (IH H2), andb_true_r. destruct e as [ok|a|j ok|a|ok d v t|j ok|ok t|j ok|ok|ok|ok|ok|ok|ok d v t]; try destruct ok; simpl in *; auto; discriminate.
 Qed.
 
 Lemma delete_nodes_no_rmnode : forall f ns, forallb no_rmnode (fst (delete_nodes f ns)) = true.
@@ -1132,13 +1070,13 @@ Proof.
     destruct (delete_nodes f ns) as [e b]; simpl in *; exact IH.
 Qed.
 
-Lemma claim_finalize_no_rmnode : forall w c t f, forallb no_rmnode (fst (claim_finalize w c t f)) = true.
+Lemma claim_finalize_no_rmnode : forall w c t lk f, forallb no_rmnode (fst (claim_finalize w c t lk f)) = true.
 Proof.
-  intros w c t f. unfold claim_finalize. cbv zeta. destruct (negb (c_fin c)); [reflexivity|].
+  intros w c t lk f. unfold claim_finalize. cbv zeta. destruct (negb (c_fin c)); [reflexivity|].
   assert (HA : forall X : list eff * option res,
     X = (match c_annot c, c_tgp c with
          | ANone, Some g =>
-             match fails f SAnnot with
+             match lfails lk f SAnnot with
              | Some KNotFound => ([EAnnot false (t + g)], None)
              | Some KConflict => ([EAnnot false (t + g)], Some RRequeue)
              | Some KServer => ([EAnnot false (t + g)], Some RErr)
@@ -1147,7 +1085,7 @@ Proof.
          | _, _ => ([], None)
          end) -> forallb no_rmnode (fst X) = true).
   { intros X ->. destruct (c_annot c); try reflexivity. destruct (c_tgp c); try reflexivity.
-    destruct (fails f SAnnot) as [[| |]|]; reflexivity. }
+    destruct (lfails lk f SAnnot) as [[| |]|]; reflexivity. }
   match goal with |- context[let '(e1, stop1) := ?X in _] => specialize (HA X eq_refl); destruct X as [e1 stop1] end.
   simpl in HA. destruct stop1; [exact HA|].
   assert (HB : forall X : list eff * option res,
@@ -1166,27 +1104,27 @@ Proof.
     destruct hard; [exact Hd|]. destruct (claim_nodes w c); exact Hd. }
   match goal with |- context[let '(e2, stop2) := ?X in _] => specialize (HB X eq_refl); destruct X as [e2 stop2] end.
   simpl in HB. destruct stop2; [simpl; rewrite forallb_app, HA, HB; reflexivity|].
-  pose proof (fun X => proj1 (forallb_forall no_rmnode (fst (rm_claim_fin f))) X) as _.
-  assert (HR : forallb no_rmnode (fst (rm_claim_fin f)) = true).
-  { unfold rm_claim_fin. destruct (fails f SRmClaimFin) as [[| |]|]; reflexivity. }
+  pose proof (fun X => proj1 (forallb_forall no_rmnode (fst (rm_claim_fin lk f))) X) as _.
+  assert (HR : forallb no_rmnode (fst (rm_claim_fin lk f)) = true).
+  { unfold rm_claim_fin. destruct (lfails lk f SRmClaimFin) as [[| |]|]; reflexivity. }
   destruct (c_pid c).
   - destruct (fails f SProvDelete); [simpl; rewrite !forallb_app, HA, HB; reflexivity|].
     assert (HE : forall X : list eff * option res,
       X = (if c_term c then ([], None)
-           else match fails f SPatchStatus with
+           else match lfails lk f SPatchStatus with
                 | Some KNotFound => ([EStatus false (c_drained c) (c_vol c) true], Some ROk)
                 | Some KConflict => ([EStatus false (c_drained c) (c_vol c) true], Some RRequeue)
                 | Some KServer => ([EStatus false (c_drained c) (c_vol c) true], Some RErr)
                 | None => ([EStatus true (c_drained c) (c_vol c) true], None)
                 end) -> forallb no_rmnode (fst X) = true).
-    { intros X ->. destruct (c_term c); [reflexivity|]. destruct (fails f SPatchStatus) as [[| |]|]; reflexivity. }
+    { intros X ->. destruct (c_term c); [reflexivity|]. destruct (lfails lk f SPatchStatus) as [[| |]|]; reflexivity. }
     match goal with |- context[let '(e3, stop3) := ?X in _] => specialize (HE X eq_refl); destruct X as [e3 stop3] end.
     simpl in HE.
     assert (HP : forallb no_rmnode [EProvDelete (fst (prov_delete (w_inst w)))] = true) by (destruct (w_inst w); reflexivity).
     destruct stop3; [simpl fst; rewrite !forallb_app, HA, HB, HP, HE; reflexivity|].
     destruct (fst (prov_delete (w_inst w))) eqn:Ep; try (simpl fst; rewrite !forallb_app, HA, HB, HE; reflexivity).
-    destruct (rm_claim_fin f) as [e r]. simpl in *. rewrite !forallb_app, HA, HB, HE, HR. reflexivity.
-  - destruct (rm_claim_fin f) as [e r]. simpl in *. rewrite !forallb_app, HA, HB, HR. reflexivity.
+    destruct (rm_claim_fin lk f) as [e r]. simpl in *. rewrite !forallb_app, HA, HB, HE, HR. reflexivity.
+  - destruct (rm_claim_fin lk f) as [e r]. simpl in *. rewrite !forallb_app, HA, HB, HR. reflexivity.
 Qed.
 
 Lemma claim_launch_no_rmnode : forall w c f, forallb no_rmnode (fst (fst (claim_launch w c f))) = true.
@@ -1202,7 +1140,7 @@ Lemma claim_reconcile_no_rmnode : forall w f, forallb no_rmnode (fst (fst (claim
 Proof.
   intros w f. unfold claim_reconcile. destruct (w_claim w) as [c|]; [|reflexivity].
   destruct (negb (c_managed c)); [reflexivity|]. destruct (c_del c) as [t|].
-  - pose proof (claim_finalize_no_rmnode w c t f) as H. destruct (claim_finalize w c t f) as [es r]. exact H.
+  - pose proof (claim_finalize_no_rmnode w c t None f) as H. destruct (claim_finalize w c t None f) as [es r]. exact H.
   - apply claim_launch_no_rmnode.
 Qed.
 
@@ -1220,16 +1158,26 @@ Proof.
       rewrite Hf. eexists; split; reflexivity.
 Qed.
 
-(* Only a reconcile of node [i] that writes the removal takes the termination finalizer off node [i]:
-   no environment event, no reconcile of another node and no lifecycle reconcile does. *)
+Lemma claim_reconcile_at_no_rmnode : forall w old f, forallb no_rmnode (fst (fst (claim_reconcile_at w old f))) = true.
+Proof.
+  intros w old f. unfold claim_reconcile_at. destruct (negb (c_managed old)); [reflexivity|]. destruct (c_del old) as [t|].
+  - pose proof (claim_finalize_no_rmnode w old t (claim_lock w old) f) as H.
+    destruct (claim_finalize w old t (claim_lock w old) f) as [es r]. exact H.
+  - destruct (claim_lock w old); [reflexivity|]. apply claim_launch_no_rmnode.
+Qed.
+
+(* Only a reconcile of node [i] (handed the current or an older version of it) that writes the removal takes the
+   termination finalizer off node [i]: no environment event, no reconcile of another node and no lifecycle
+   reconcile does. *)
 Lemma node_finalizer_only_by_reconcile_l : forall w o i,
   node_has_fin i w = true -> node_has_fin i (fst (step w o)) = false ->
-  exists f, o = RNode i f /\ In (ERmNodeFin i true) (fst (snd (step w o))).
+  (exists f, o = RNode i f /\ In (ERmNodeFin i true) (fst (snd (step w o)))) \/
+  (exists old f, o = RNodeStale old f /\ n_id old = i /\ In (ERmNodeFin i true) (fst (snd (step w o)))).
 Proof.
   intros w o i H H'. unfold step in *. destruct (is_env o) eqn:He.
   - simpl in H'. rewrite (env_node_fin i w o He H) in H'. discriminate.
-  - destruct o as [j f|f| | | | | | | | | | | |]; simpl in He; try discriminate; simpl in *.
-    + destruct (node_reconcile w j f) as [es r] eqn:E. simpl in *.
+  - destruct o as [j f|f| | | | | | | | | | | | | |old f|old f]; simpl in He; try discriminate; simpl in *.
+    + left. destruct (node_reconcile w j f) as [es r] eqn:E. simpl in *.
       destruct (forallb (nfin_safe i) es) eqn:Hs.
       * change (node_has_fin i (apply_effs w es) = false) in H'.
         rewrite (apply_effs_node_fin i es w Hs H) in H'. discriminate.
@@ -1238,12 +1186,21 @@ Proof.
     + pose proof (claim_reconcile_no_rmnode w f) as Hn. destruct (claim_reconcile w f) as [[es r] k]. simpl in *.
       change (node_has_fin i (apply_effs w es) = false) in H'.
       rewrite (apply_effs_node_fin i es w (no_rmnode_nfin_safe i es Hn) H) in H'. discriminate.
+    + right. destruct (node_reconcile_at w old f) as [es r] eqn:E. simpl in *.
+      destruct (forallb (nfin_safe i) es) eqn:Hs.
+      * change (node_has_fin i (apply_effs w es) = false) in H'.
+        rewrite (apply_effs_node_fin i es w Hs H) in H'. discriminate.
+      * apply not_nfin_safe_in in Hs. destruct (node_reconcile_at_rm _ _ _ _ _ _ E Hs) as (Hj & _).
+        exists old, f. split; [reflexivity|]. split; [symmetry; exact Hj|exact Hs].
+    + pose proof (claim_reconcile_at_no_rmnode w old f) as Hn. destruct (claim_reconcile_at w old f) as [[es r] k]. simpl in *.
+      change (node_has_fin i (apply_effs w es) = false) in H'.
+      rewrite (apply_effs_node_fin i es w (no_rmnode_nfin_safe i es Hn) H) in H'. discriminate.
 Qed.
 
 Lemma apply_eff_claim_fin : forall e w, no_rm e = true -> claim_has_fin w = true -> claim_has_fin (apply_eff w e) = true.
 Proof.
   intros e w Hs H. unfold claim_has_fin in *.
-  destruct e as [ok|a|j ok|a|ok d v t|j ok|ok t|j ok|ok|ok|ok|ok]; simpl in *;
+  destruct e as [ok|a|j ok|a|ok d v t|j ok|ok t|j ok|ok|ok|ok|ok|ok|ok d v t]; simpl in *;
     try destruct ok; try destruct a; simpl in *; try discriminate; try exact H;
     try (match goal with |- context[upd_node ?i ?g w] => destruct (upd_node_frame i g w) as (_&_&_&_&X&_); rewrite X; exact H end; fail);
     unfold upd_claim, api_delete_claim; simpl; destruct (w_claim w) as [c|]; simpl in *; try discriminate; auto.
@@ -1261,7 +1218,7 @@ Qed.
 Lemma plain_no_rm : forall es, forallb plain es = true -> forallb no_rm es = true.
 Proof.
   induction es as [|e es IH]; simpl; auto. intros H. apply andb_prop in H. destruct H as [H1 H2].
-  rewrite (IH H2), andb_true_r. destruct e as [ok|a|j ok|a|ok d v t|j ok|ok t|j ok|ok|ok|ok|ok]; try destruct ok; simpl in *; auto.
+  rewrite (IH H2), andb_true_r. destruct e as [ok|a|j ok|a|ok d v t|j ok|ok t|j ok|ok|ok|ok|ok|ok|ok d v t]; try destruct ok; simpl in *; auto.
 Qed.
 
 Lemma env_claim_fin : forall w o, is_env o = true -> claim_has_fin w = true -> claim_has_fin (env_step w o) = true.
@@ -1278,17 +1235,570 @@ Qed.
 (* Only a lifecycle reconcile that writes the removal takes the finalizer off the NodeClaim. *)
 Lemma claim_finalizer_only_by_reconcile_l : forall w o,
   claim_has_fin w = true -> claim_has_fin (fst (step w o)) = false ->
-  exists f, o = RClaim f /\ In (ERmClaimFin true) (fst (snd (step w o))).
+  (exists f, o = RClaim f /\ In (ERmClaimFin true) (fst (snd (step w o)))) \/
+  (exists old f, o = RClaimStale old f /\ In (ERmClaimFin true) (fst (snd (step w o)))).
 Proof.
   intros w o H H'. unfold step in *. destruct (is_env o) eqn:He.
   - simpl in H'. rewrite (env_claim_fin w o He H) in H'. discriminate.
-  - destruct o as [j f|f| | | | | | | | | | | |]; simpl in He; try discriminate; simpl in *.
+  - destruct o as [j f|f| | | | | | | | | | | | | |old f|old f]; simpl in He; try discriminate; simpl in *.
     + pose proof (node_reconcile_plain w j f) as Hp. destruct (node_reconcile w j f) as [es r]. simpl in *.
       change (claim_has_fin (apply_effs w es) = false) in H'.
       rewrite (apply_effs_claim_fin es w (plain_no_rm _ Hp) H) in H'. discriminate.
-    + destruct (claim_reconcile w f) as [[es r] k]. simpl in *.
+    + left. destruct (claim_reconcile w f) as [[es r] k]. simpl in *.
       destruct (forallb no_rm es) eqn:Hs.
       * change (claim_has_fin (apply_effs w es) = false) in H'.
         rewrite (apply_effs_claim_fin es w Hs H) in H'. discriminate.
       * exists f. split; [reflexivity|]. apply not_no_rm_in. exact Hs.
+    + pose proof (node_reconcile_at_plain w old f) as Hp. destruct (node_reconcile_at w old f) as [es r]. simpl in *.
+      change (claim_has_fin (apply_effs w es) = false) in H'.
+      rewrite (apply_effs_claim_fin es w (plain_no_rm _ Hp) H) in H'. discriminate.
+    + right. destruct (claim_reconcile_at w old f) as [[es r] k]. simpl in *.
+      destruct (forallb no_rm es) eqn:Hs.
+      * change (claim_has_fin (apply_effs w es) = false) in H'.
+        rewrite (apply_effs_claim_fin es w Hs H) in H'. discriminate.
+      * exists old, f. split; [reflexivity|]. apply not_no_rm_in. exact Hs.
+Qed.
+
+(* ------------------------------------------------------------------ deepening: weakest premises *)
+
+(* The NodeClaim finalizer theorem holds exactly in the worlds where an existing instance is recorded on the claim. *)
+Lemma claim_finalizer_ok_iff_l : forall w f es r k,
+  claim_reconcile w f = (es, r, k) -> In (ERmClaimFin true) es ->
+  (claim_fin_ok (instant w es) <-> recorded_or_absent w).
+Proof.
+  intros w f es r k H Hin.
+  destruct (claim_finalizer_nodes_gone_l _ _ _ _ _ H Hin) as (Hpre & Hng & c & Hc & Hp).
+  destruct (claim_reconcile_rm _ _ _ _ _ H Hin) as (c0 & t & pre & Hc0 & _ & Hes & Hq & _ & _).
+  subst es. rewrite instant_last in *.
+  destruct (claim_instant _ _ _ Hc0 Hq) as (_ & _ & _ & _ & _ & _ & _ & Hi).
+  unfold recorded_or_absent, recorded_or_absent_b. rewrite Hc. split.
+  - intros [_ Hg]. unfold claim_instance_gone in Hg. rewrite Hi in Hg.
+    destruct (c_pid c); [reflexivity|]. simpl. destruct (w_inst w); simpl; auto;
+      (assert (X : IGone = IGone \/ True) by auto); try (specialize (Hg ltac:(discriminate)); discriminate).
+  - intros Hr. split; [exact Hng|]. unfold claim_instance_gone. rewrite Hi in *. intros Hne.
+    destruct (c_pid c) eqn:Ep.
+    + specialize (Hp eq_refl). destruct (w_inst w); simpl in Hp; try discriminate; [exfalso; apply Hne; reflexivity|reflexivity].
+    + simpl in Hr. destruct (w_inst w); simpl in Hr; try discriminate; [exfalso; apply Hne; reflexivity|reflexivity].
+Qed.
+
+(* [b]: a claim object existed when the step began *)
+Definition GA (b : bool) (w : world) : Prop :=
+  accounted_b w = true /\ (b = true -> w_claim w = None -> inst_absent (w_inst w) = true).
+
+Lemma GA_init : forall w, accounted w -> GA (is_some (w_claim w)) w.
+Proof. intros w H. split; [exact H|]. intros Hb Hn. rewrite Hn in Hb. discriminate. Qed.
+
+Lemma GA_orphaned : forall w w', GA (is_some (w_claim w)) w' -> orphaned w w' = false.
+Proof.
+  intros w w' [_ H]. unfold orphaned. destruct (is_some (w_claim w)); [|reflexivity].
+  destruct (w_claim w') eqn:E; [reflexivity|]. rewrite (H eq_refl eq_refl). reflexivity.
+Qed.
+
+(* writes that keep [accounted] in every world: everything but Create, the finalizer removal and a Delete of the
+   claim (which needs to know that the claim recorded its provider id) *)
+Definition calm (e : eff) : bool :=
+  match e with ERmClaimFin true | EProvCreate true | EDelClaim true => false | _ => true end.
+
+Lemma calm_eff_GA : forall e b w, calm e = true -> GA b w -> GA b (apply_eff w e).
+Proof.
+  intros e b w Hp [HJ HG]. unfold GA, accounted_b in *.
+  destruct e as [ok|a|i ok|a|ok d v t|i ok|ok t|i ok|ok|ok|ok|ok|ok|ok d v t]; simpl in *;
+    try destruct ok; try destruct a; simpl in *; try discriminate; auto;
+    try (match goal with |- context[upd_node ?i ?g w] =>
+           destruct (upd_node_frame i g w) as (_&_&_&X&Y&_); rewrite X, Y; auto end; fail);
+    unfold upd_claim, set_inst, api_delete_claim in *; simpl in *;
+    destruct (w_claim w) as [c|]; simpl in *; auto;
+    try (destruct (w_inst w); simpl in *; auto; fail);
+    destruct (c_del c), (c_fin c), (c_pid c), (w_inst w); simpl in *;
+    split; auto; try discriminate; intros; try discriminate; auto.
+Qed.
+
+Lemma calm_effs_GA : forall es b w, forallb calm es = true -> GA b w -> GA b (apply_effs w es).
+Proof.
+  induction es as [|e es IH]; intros b w H Hg; simpl in *; [exact Hg|].
+  apply andb_prop in H. destruct H as [H1 H2]. unfold apply_effs in *. simpl.
+  apply IH; [exact H2|]. apply calm_eff_GA; assumption.
+Qed.
+
+(* a Delete of a claim that recorded its provider id *)
+Lemma del_recorded_GA : forall b w c, w_claim w = Some c -> c_pid c = true -> GA b w -> GA b (apply_eff w (EDelClaim true)).
+Proof.
+  intros b w c Hc Hp [HJ HG]. unfold GA, accounted_b in *. simpl.
+  unfold upd_claim, api_delete_claim. simpl. rewrite Hc in *. simpl.
+  destruct (c_del c), (c_fin c), (w_inst w); rewrite ?Hp in *; simpl in *;
+    split; auto; try discriminate; intros; try discriminate; auto.
+Qed.
+
+Definition nodelc (e : eff) : bool := match e with EDelClaim true => false | _ => true end.
+
+Lemma await_drain_nodelc : forall hc i w f dl cs, forallb nodelc (a_effs (await_drain hc i w f dl cs)) = true.
+Proof.
+  intros hc i w f dl [[d v] t]. unfold await_drain. cbv zeta.
+  destruct (fails f SListPods); [reflexivity|]. destruct (negb (drain_done i w)); [reflexivity|].
+  destruct (min_drain_wait hc (w_now w) _); [reflexivity|].
+  unfold await_volumes. destruct (fails f SListVAs); [reflexivity|]. destruct (va_lookup_err i w f); [reflexivity|].
+  assert (X : forall cs', forallb nodelc (a_effs (await_instance hc f cs' (w_inst w))) = true).
+  { intros [[d' v'] t']. unfold await_instance. destruct hc; simpl; [|reflexivity].
+    destruct (fails f SProvDelete); [reflexivity|]. destruct (w_inst w); reflexivity. }
+  destruct (filter _ _); [apply X|]. destruct (elapsed (w_now w) dl); [apply X|reflexivity].
+Qed.
+
+Lemma rm_node_fin_nodelc : forall i cur f, forallb nodelc (fst (rm_node_fin i cur f)) = true.
+Proof. intros i cur f. unfold rm_node_fin. destruct (fails f SRmNodeFin) as [[| |]|]; try reflexivity. destruct cur; reflexivity. Qed.
+
+Lemma node_tail_nodelc : forall w i cur f oc tw dl cgone stale, forallb nodelc (fst (node_tail w i cur f oc tw dl cgone stale)) = true.
+Proof.
+  intros w i cur f oc tw dl cgone stale. unfold node_tail. cbv zeta.
+  match goal with |- context[await_drain ?hc i w f dl ?cs] =>
+    pose proof (await_drain_nodelc hc i w f dl cs) as Ha; set (a := await_drain hc i w f dl cs) in * end.
+  match goal with |- context[let '(e4, stop4) := ?X in _] =>
+    assert (H4 : forallb nodelc (fst X) = true);
+      [destruct (is_some oc && negb _); [|reflexivity];
+       destruct (a_conds a) as [[d v] t]; destruct tw; destruct (status_patch_ans f cgone stale); reflexivity
+      | destruct X as [e4 stop4]] end.
+  simpl in H4. destruct stop4; simpl; [rewrite forallb_app, Ha, H4; reflexivity|].
+  destruct (a_res a); simpl; try (rewrite forallb_app, Ha, H4; reflexivity).
+  pose proof (rm_node_fin_nodelc i cur f) as Hr. destruct (rm_node_fin i cur f) as [e r]. simpl in *.
+  rewrite !forallb_app, Ha, H4, Hr. reflexivity.
+Qed.
+
+Lemma node_reconcile_at_nodelc : forall w n f, visible_claim w = None \/ on_twin w = true ->
+  forallb nodelc (fst (node_reconcile_at w n f)) = true.
+Proof.
+  intros w n f Hv. unfold node_reconcile_at.
+  destruct (n_del n && n_fin n && n_managed n); [|reflexivity].
+  unfold node_finalize. cbv zeta. destruct (fails f SListClaims); [reflexivity|].
+  assert (H1 : forallb nodelc (fst (fst (fst (del_claim_step (visible_claim w) (on_twin w) f)))) = true).
+  { unfold del_claim_step. destruct Hv as [Hv|Hv]; rewrite Hv; [reflexivity|].
+    destruct (visible_claim w) as [c|]; [|reflexivity]. destruct (is_some (c_del c)); [reflexivity|].
+    destruct (fails f SDelClaim) as [[| |]|]; reflexivity. }
+  destruct (del_claim_step (visible_claim w) (on_twin w) f) as [[[e1 stop1] stale] cgone]. simpl in H1.
+  destruct stop1; [exact H1|].
+  assert (H2 : forallb nodelc (fst (not_ready_step n (w_inst w) f)) = true).
+  { unfold not_ready_step. destruct (n_ready n); [reflexivity|]. destruct (fails f SProvGet); [reflexivity|].
+    destruct (prov_get (w_inst w)); reflexivity. }
+  destruct (not_ready_step n (w_inst w) f) as [e2 short]. simpl in H2.
+  destruct short as [[|]|].
+  - pose proof (rm_node_fin_nodelc (n_id n) (get_node (n_id n) (w_nodes w)) f) as Hr. destruct (rm_node_fin (n_id n) (get_node (n_id n) (w_nodes w)) f) as [e r]. simpl in *.
+    rewrite !forallb_app, H1, H2, Hr. reflexivity.
+  - simpl. rewrite forallb_app, H1, H2. reflexivity.
+  - destruct (term_time (visible_claim w)) as [dl|]; [|simpl; rewrite forallb_app, H1, H2; reflexivity].
+    assert (H3 : forallb nodelc (fst (taint_step n (get_node (n_id n) (w_nodes w)) f)) = true).
+    { unfold taint_step. destruct (n_taint n && n_lbl n); [reflexivity|]. destruct (fails f STaint) as [[| |]|]; try reflexivity.
+      destruct (get_node (n_id n) (w_nodes w)) as [m|]; [|reflexivity]. destruct (node_eqb n m); reflexivity. }
+    destruct (taint_step n (get_node (n_id n) (w_nodes w)) f) as [e3 stop3]. simpl in H3.
+    destruct stop3; [simpl; rewrite !forallb_app, H1, H2, H3; reflexivity|].
+    pose proof (node_tail_nodelc w (n_id n) (get_node (n_id n) (w_nodes w)) f (visible_claim w) (on_twin w) dl cgone stale) as Ht.
+    destruct (node_tail w (n_id n) (get_node (n_id n) (w_nodes w)) f (visible_claim w) (on_twin w) dl cgone stale) as [et r]. simpl in *.
+    rewrite !forallb_app, H1, H2, H3, Ht. reflexivity.
+Qed.
+
+Lemma node_reconcile_nodelc : forall w i f, visible_claim w = None \/ on_twin w = true ->
+  forallb nodelc (fst (node_reconcile w i f)) = true.
+Proof.
+  intros w i f Hv. unfold node_reconcile. destruct (get_node i (w_nodes w)) as [n|]; [|reflexivity].
+  apply node_reconcile_at_nodelc. exact Hv.
+Qed.
+
+
+Lemma plain_nodelc_calm : forall es, forallb plain es = true -> forallb nodelc es = true -> forallb calm es = true.
+Proof.
+  induction es as [|e es IH]; simpl; auto. intros H1 H2.
+  apply andb_prop in H1. destruct H1 as [a1 a2]. apply andb_prop in H2. destruct H2 as [b1 b2].
+  rewrite (IH a2 b2), andb_true_r. destruct e as [ok|a|i ok|a|ok d v t|i ok|ok t|i ok|ok|ok|ok|ok|ok|ok d v t];
+    try destruct ok; try destruct a; simpl in *; auto.
+Qed.
+
+(* plain writes on a world whose claim (if any) recorded its provider id *)
+Lemma plain_effs_recorded_GA : forall es b w, forallb plain es = true ->
+  (match w_claim w with Some c => c_pid c = true | None => True end) -> GA b w -> GA b (apply_effs w es).
+Proof.
+  induction es as [|e es IH]; intros b w H Hp Hg; simpl in *; [exact Hg|].
+  apply andb_prop in H. destruct H as [H1 H2]. unfold apply_effs in *. simpl. apply IH; [exact H2| |].
+  - (* the provider id stays recorded *)
+    destruct e as [ok|a|i ok|a|ok d v t|i ok|ok t|i ok|ok|ok|ok|ok|ok|ok d v t]; simpl in *;
+      try destruct ok; try destruct a; simpl in *; try discriminate; auto;
+      try (match goal with |- context[upd_node ?i ?g w] => destruct (upd_node_frame i g w) as (_&_&_&_&Y&_); rewrite Y; auto end; fail);
+      unfold upd_claim, api_delete_claim; simpl; destruct (w_claim w) as [c|]; simpl in *; auto;
+      destruct (c_del c); simpl; auto; destruct (c_fin c); simpl; auto.
+  - destruct (calm e) eqn:Ec; [apply calm_eff_GA; assumption|].
+    destruct e as [ok|a|i ok|a|ok d v t|i ok|ok t|i ok|ok|ok|ok|ok|ok|ok d v t]; try destruct ok; simpl in *; try discriminate.
+    destruct (w_claim w) as [c|] eqn:Hc.
+    + eapply del_recorded_GA; eauto.
+    + simpl. unfold upd_claim. rewrite Hc.
+      destruct Hg as [HJ HG]. unfold GA, accounted_b in *. simpl. rewrite Hc in *. split; auto.
+Qed.
+
+Lemma node_at_GA : forall w n f b, GA b w -> GA b (apply_effs w (fst (node_reconcile_at w n f))).
+Proof.
+  intros w n f b Hg. pose proof (node_reconcile_at_plain w n f) as Hp.
+  destruct (visible_claim w) as [c|] eqn:Hv; [destruct (on_twin w) eqn:Et|].
+  - apply calm_effs_GA; [|exact Hg]. apply plain_nodelc_calm; [exact Hp|]. apply node_reconcile_at_nodelc. right. exact Et.
+  - apply plain_effs_recorded_GA; [exact Hp| |exact Hg].
+    unfold visible_claim, on_twin, with_pid in Hv, Et. destruct (w_claim w) as [c'|]; [|exact I].
+    destruct (c_pid c'); [reflexivity|]. destruct (w_twin w) as [t|]; [destruct (c_pid t)|]; discriminate.
+  - apply calm_effs_GA; [|exact Hg]. apply plain_nodelc_calm; [exact Hp|]. apply node_reconcile_at_nodelc. left. exact Hv.
+Qed.
+
+Lemma node_GA : forall w i f b, GA b w -> GA b (apply_effs w (fst (node_reconcile w i f))).
+Proof.
+  intros w i f b Hg. unfold node_reconcile. destruct (get_node i (w_nodes w)) as [n|]; [|exact Hg].
+  apply node_at_GA. exact Hg.
+Qed.
+
+(* equal versions are the same object *)
+Lemma opt_eqb_Z_eq : forall a b : option Z, opt_eqb Z.eqb a b = true -> a = b.
+Proof. intros [a|] [b|]; simpl; try discriminate; auto. intros H. apply Z.eqb_eq in H. congruence. Qed.
+Lemma annot_eqb_eq : forall a b, annot_eqb a b = true -> a = b.
+Proof. intros [| |a] [| |b]; simpl; try discriminate; auto. intros H. apply Z.eqb_eq in H. congruence. Qed.
+Lemma dcond_eqb_eq : forall a b, dcond_eqb a b = true -> a = b.
+Proof. intros [|a|] [|b|]; simpl; try discriminate; auto. intros H. apply Z.eqb_eq in H. congruence. Qed.
+Lemma vcond_eqb_eq : forall a b, vcond_eqb a b = true -> a = b.
+Proof. intros [] []; simpl; try discriminate; auto. Qed.
+
+Lemma claim_eqb_eq : forall a b, claim_eqb a b = true -> a = b.
+Proof.
+  intros [a1 a2 a3 a4 a5 a6 a7 a8 a9 a10] [b1 b2 b3 b4 b5 b6 b7 b8 b9 b10]. unfold claim_eqb. simpl. intros H.
+  apply andb_prop in H; destruct H as [H h10]. apply andb_prop in H; destruct H as [H h9].
+  apply andb_prop in H; destruct H as [H h8]. apply andb_prop in H; destruct H as [H h7].
+  apply andb_prop in H; destruct H as [H h6]. apply andb_prop in H; destruct H as [H h5].
+  apply andb_prop in H; destruct H as [H h4]. apply andb_prop in H; destruct H as [H h3].
+  apply andb_prop in H; destruct H as [h1 h2].
+  apply Bool.eqb_prop in h1. apply Bool.eqb_prop in h2. apply opt_eqb_Z_eq in h3. apply Bool.eqb_prop in h4.
+  apply Bool.eqb_prop in h5. apply opt_eqb_Z_eq in h6. apply annot_eqb_eq in h7. apply dcond_eqb_eq in h8.
+  apply vcond_eqb_eq in h9. apply Bool.eqb_prop in h10. congruence.
+Qed.
+
+(* a reconcile handed the current version is the ordinary reconcile *)
+Lemma claim_reconcile_at_fresh : forall w old f, claim_lock w old = None ->
+  w_claim w = Some old /\ claim_reconcile_at w old f = claim_reconcile w f.
+Proof.
+  intros w old f H. unfold claim_lock in H. destruct (w_claim w) as [c|] eqn:Ec; [|discriminate].
+  destruct (claim_eqb old c) eqn:E; [|discriminate]. apply claim_eqb_eq in E. subst c. split; [reflexivity|].
+  unfold claim_reconcile_at, claim_reconcile, claim_lock. rewrite Ec.
+  assert (X : claim_eqb old old = true).
+  { destruct (claim_eqb old old) eqn:Y; [reflexivity|]. exfalso.
+    unfold claim_lock in H. revert Y. clear. destruct old as [a1 a2 a3 a4 a5 a6 a7 a8 a9 a10]. unfold claim_eqb. simpl.
+    rewrite !Bool.eqb_reflx.
+    assert (O : forall o : option Z, opt_eqb Z.eqb o o = true) by (intros [z|]; simpl; [apply Z.eqb_refl|reflexivity]).
+    rewrite !O. destruct a7 as [| |z]; destruct a8 as [|z'|]; destruct a9; simpl; rewrite ?Z.eqb_refl; discriminate. }
+  rewrite X. destruct (negb (c_managed old)); [reflexivity|]. destruct (c_del old); reflexivity.
+Qed.
+
+Lemma delete_nodes_nodelc : forall f ns, forallb nodelc (fst (delete_nodes f ns)) = true.
+Proof.
+  intros f ns. induction ns as [|n ns IH]; simpl; [reflexivity|].
+  destruct (n_del n); [exact IH|].
+  destruct (fails f (SDelNode (n_id n))) as [[| |]|]; try reflexivity;
+    destruct (delete_nodes f ns) as [e b]; simpl in *; exact IH.
+Qed.
+
+Lemma claim_finalize_nodelc : forall w c t lk f, forallb nodelc (fst (claim_finalize w c t lk f)) = true.
+Proof.
+  intros w c t lk f. unfold claim_finalize. cbv zeta. destruct (negb (c_fin c)); [reflexivity|].
+  assert (HA : forall X : list eff * option res,
+    X = (match c_annot c, c_tgp c with
+         | ANone, Some g =>
+             match lfails lk f SAnnot with
+             | Some KNotFound => ([EAnnot false (t + g)], None)
+             | Some KConflict => ([EAnnot false (t + g)], Some RRequeue)
+             | Some KServer => ([EAnnot false (t + g)], Some RErr)
+             | None => ([EAnnot true (t + g)], None)
+             end
+         | _, _ => ([], None)
+         end) -> forallb nodelc (fst X) = true).
+  { intros X ->. destruct (c_annot c); try reflexivity. destruct (c_tgp c); try reflexivity.
+    destruct (lfails lk f SAnnot) as [[| |]|]; reflexivity. }
+  match goal with |- context[let '(e1, stop1) := ?X in _] => specialize (HA X eq_refl); destruct X as [e1 stop1] end.
+  simpl in HA. destruct stop1; [exact HA|].
+  assert (HB : forall X : list eff * option res,
+    X = (if c_registered c
+         then match fails f SListNodes with
+              | Some _ => ([], Some RErr)
+              | None =>
+                  let ns := claim_nodes w c in
+                  let '(e, hard) := delete_nodes f ns in
+                  if hard then (e, Some RErr) else match ns with [] => (e, None) | _ => (e, Some ROk) end
+              end
+         else ([], None)) -> forallb nodelc (fst X) = true).
+  { intros X ->. destruct (c_registered c); [|reflexivity]. destruct (fails f SListNodes); [reflexivity|]. cbv zeta.
+    pose proof (delete_nodes_nodelc f (claim_nodes w c)) as Hd.
+    destruct (delete_nodes f (claim_nodes w c)) as [e hard]. simpl in Hd.
+    destruct hard; [exact Hd|]. destruct (claim_nodes w c); exact Hd. }
+  match goal with |- context[let '(e2, stop2) := ?X in _] => specialize (HB X eq_refl); destruct X as [e2 stop2] end.
+  simpl in HB. destruct stop2; [simpl; rewrite forallb_app, HA, HB; reflexivity|].
+  pose proof (fun X => proj1 (forallb_forall nodelc (fst (rm_claim_fin lk f))) X) as _.
+  assert (HR : forallb nodelc (fst (rm_claim_fin lk f)) = true).
+  { unfold rm_claim_fin. destruct (lfails lk f SRmClaimFin) as [[| |]|]; reflexivity. }
+  destruct (c_pid c).
+  - destruct (fails f SProvDelete); [simpl; rewrite !forallb_app, HA, HB; reflexivity|].
+    assert (HE : forall X : list eff * option res,
+      X = (if c_term c then ([], None)
+           else match lfails lk f SPatchStatus with
+                | Some KNotFound => ([EStatus false (c_drained c) (c_vol c) true], Some ROk)
+                | Some KConflict => ([EStatus false (c_drained c) (c_vol c) true], Some RRequeue)
+                | Some KServer => ([EStatus false (c_drained c) (c_vol c) true], Some RErr)
+                | None => ([EStatus true (c_drained c) (c_vol c) true], None)
+                end) -> forallb nodelc (fst X) = true).
+    { intros X ->. destruct (c_term c); [reflexivity|]. destruct (lfails lk f SPatchStatus) as [[| |]|]; reflexivity. }
+    match goal with |- context[let '(e3, stop3) := ?X in _] => specialize (HE X eq_refl); destruct X as [e3 stop3] end.
+    simpl in HE.
+    assert (HP : forallb nodelc [EProvDelete (fst (prov_delete (w_inst w)))] = true) by (destruct (w_inst w); reflexivity).
+    destruct stop3; [simpl fst; rewrite !forallb_app, HA, HB, HP, HE; reflexivity|].
+    destruct (fst (prov_delete (w_inst w))) eqn:Ep; try (simpl fst; rewrite !forallb_app, HA, HB, HE; reflexivity).
+    destruct (rm_claim_fin lk f) as [e r]. simpl in *. rewrite !forallb_app, HA, HB, HE, HR. reflexivity.
+  - destruct (rm_claim_fin lk f) as [e r]. simpl in *. rewrite !forallb_app, HA, HB, HR. reflexivity.
+Qed.
+
+Lemma quiet_calm : forall es, forallb quiet es = true -> forallb calm es = true.
+Proof.
+  induction es as [|e es IH]; simpl; auto. intros H. apply andb_prop in H. destruct H as [H1 H2].
+  rewrite (IH H2), andb_true_r. unfold quiet in H1. destruct e as [ok|a|i ok|a|ok d v t|i ok|ok t|i ok|ok|ok|ok|ok|ok|ok d v t];
+    try destruct ok; try destruct a; simpl in *; auto.
+Qed.
+
+Lemma no_create_nodelc_no_rm_calm : forall es,
+  forallb no_create es = true -> forallb nodelc es = true -> forallb no_rm es = true -> forallb calm es = true.
+Proof.
+  induction es as [|e es IH]; simpl; auto. intros H1 H2 H3.
+  apply andb_prop in H1. destruct H1 as [a1 a2]. apply andb_prop in H2. destruct H2 as [b1 b2].
+  apply andb_prop in H3. destruct H3 as [c1 c2].
+  rewrite (IH a2 b2 c2), andb_true_r. destruct e as [ok|a|i ok|a|ok d v t|i ok|ok t|i ok|ok|ok|ok|ok|ok|ok d v t];
+    try destruct ok; try destruct a; simpl in *; auto.
+Qed.
+
+(* a reconcile handed another version than the current one never takes the finalizer off and never launches *)
+Lemma claim_reconcile_at_locked : forall w old f k, claim_lock w old = Some k ->
+  forallb calm (fst (fst (claim_reconcile_at w old f))) = true.
+Proof.
+  intros w old f k H. unfold claim_reconcile_at. rewrite H.
+  destruct (negb (c_managed old)); [reflexivity|]. destruct (c_del old) as [t|]; [|reflexivity].
+  pose proof (claim_finalize_no_create w old t (Some k) f) as H1. pose proof (claim_finalize_nodelc w old t (Some k) f) as H2.
+  destruct (claim_finalize w old t (Some k) f) as [es r] eqn:Ef. simpl in *.
+  apply no_create_nodelc_no_rm_calm; [exact H1|exact H2|].
+  destruct (forallb no_rm es) eqn:Hrm; [reflexivity|]. apply not_no_rm_in in Hrm.
+  destruct (claim_finalize_rm _ _ _ _ _ _ _ Ef Hrm) as (X & _). discriminate.
+Qed.
+
+Lemma launch_GA : forall w c f, w_claim w = Some c -> c_del c = None -> accounted w ->
+  GA true (fst (step w (RClaim f))).
+Proof.
+  intros w c f Hc Hd HJ.
+  unfold accounted, accounted_b in HJ. rewrite Hc in HJ.
+  destruct w as [now ns cl twn ps vs s k]. simpl in *. subst cl.
+  destruct c as [m fin del pid reg tgp an dr vo te]. simpl in *. subst del.
+  unfold step, GA, accounted_b. simpl. unfold claim_reconcile. simpl.
+  destruct m; simpl; [|split; [exact HJ|discriminate]].
+  unfold claim_launch. cbv zeta. simpl.
+  destruct fin, pid, k, s; simpl in *; try discriminate;
+    try (destruct (fails f SAddFin) as [[| |]|]; simpl);
+    try (destruct (fails f SProvCreate); simpl);
+    try (destruct (fails f SPatchMeta) as [[| |]|]; simpl);
+    try (destruct (fails f SPatchStatusL) as [[| |]|]; simpl);
+    split; auto; discriminate.
+Qed.
+
+Lemma env_GA : forall w o, is_env o = true -> accounted w ->
+  (o = EnvDelClaim -> recorded_or_absent w) -> GA (is_some (w_claim w)) (env_step w o).
+Proof.
+  intros w o He HJ Hguard. unfold accounted, accounted_b in HJ. unfold GA, accounted_b.
+  unfold recorded_or_absent, recorded_or_absent_b in Hguard.
+  destruct o; simpl in He; try discriminate; simpl;
+    try (match goal with |- context[upd_node ?i ?g w] =>
+           destruct (upd_node_frame i g w) as (_&_&_&X&Y&_); rewrite X, Y end;
+         split; [exact HJ|]; intros Hb Hn; rewrite Hn in Hb; discriminate);
+    try (unfold upd_pods; simpl; split; [exact HJ|]; intros Hb Hn; rewrite Hn in Hb; discriminate);
+    try (destruct (existsb _ (w_pods w)); unfold upd_pods; simpl; split; try exact HJ; intros Hb Hn; rewrite Hn in Hb; discriminate);
+    try (split; [exact HJ|]; intros Hb Hn; rewrite Hn in Hb; discriminate);
+    unfold upd_claim, set_inst, api_delete_claim; simpl;
+    destruct (w_claim w) as [c|]; simpl in *; try (split; [reflexivity|discriminate]);
+    try (specialize (Hguard eq_refl));
+    try (destruct (c_del c), (c_fin c), (c_pid c), (w_inst w); simpl in *; split; auto; try discriminate; intros; try discriminate; auto; fail).
+  - destruct (c_pid c && negb match w_nodes w with [] => true | _ :: _ => false end); simpl; split; auto; discriminate.
+Qed.
+
+Lemma step_GA_claim : forall w f, accounted w -> GA (is_some (w_claim w)) (fst (step w (RClaim f))).
+Proof.
+  intros w f HJ. unfold step. simpl is_env. cbv iota.
+  - destruct (w_claim w) as [c|] eqn:Ec.
+    2:{ simpl. unfold claim_reconcile. rewrite Ec. simpl. split; [exact HJ|discriminate]. }
+    destruct (c_del c) as [t|] eqn:Ed.
+    2:{ simpl is_some. pose proof (launch_GA w c f Ec Ed HJ) as X. unfold step in X. simpl in X. exact X. }
+    simpl. unfold claim_reconcile. rewrite Ec. destruct (negb (c_managed c)).
+    { simpl. split; [exact HJ|]. unfold set_inst. simpl. rewrite Ec. discriminate. }
+    rewrite Ed. pose proof (claim_finalize_no_create w c t None f) as Hnc. pose proof (claim_finalize_nodelc w c t None f) as Hnd.
+    destruct (claim_finalize w c t None f) as [es r] eqn:Ef. simpl in Hnc, Hnd.
+    change (GA true (apply_effs w es)).
+    assert (G0 : GA true w) by (pose proof (GA_init w HJ) as X; rewrite Ec in X; exact X).
+    destruct (forallb no_rm es) eqn:Hrm.
+    + apply calm_effs_GA; [apply no_create_nodelc_no_rm_calm; assumption|exact G0].
+    + apply not_no_rm_in in Hrm.
+      destruct (claim_finalize_rm _ _ _ _ _ _ _ Ef Hrm) as (_ & pre & Hes & Hq & _ & Hpid). subst es.
+      rewrite apply_effs_app.
+      destruct (claim_instant _ _ _ Ec Hq) as (c' & Hc' & _ & e2 & e3 & _ & _ & Hi).
+      unfold apply_effs at 1. simpl. unfold upd_claim. rewrite Hc'. rewrite e3, Ed. simpl.
+      unfold GA, accounted_b. simpl. split; [reflexivity|]. intros _ _. rewrite Hi.
+      destruct (c_pid c) eqn:Ep; [exact (Hpid eq_refl)|].
+      unfold accounted, accounted_b in HJ. rewrite Ec, Ep, Ed in HJ. simpl in HJ.
+      rewrite andb_false_r, orb_false_r in HJ. exact HJ.
+Qed.
+
+Lemma step_GA : forall w o, accounted w -> (o = EnvDelClaim -> recorded_or_absent w) ->
+  GA (is_some (w_claim w)) (fst (step w o)).
+Proof.
+  intros w o HJ Hguard. unfold step. destruct (is_env o) eqn:He; [simpl; apply env_GA; assumption|].
+  destruct o as [i f|f| | | | | | | | | | | | | |old f|old f]; simpl in He; try discriminate.
+  - simpl. pose proof (node_GA w i f _ (GA_init w HJ)) as X. destruct (node_reconcile w i f) as [es r]. exact X.
+  - exact (step_GA_claim w f HJ).
+  - simpl. pose proof (node_at_GA w old f _ (GA_init w HJ)) as X. destruct (node_reconcile_at w old f) as [es r]. exact X.
+  - destruct (claim_lock w old) as [k|] eqn:Elk.
+    + simpl. pose proof (claim_reconcile_at_locked w old f k Elk) as Hc.
+      destruct (claim_reconcile_at w old f) as [[es r] k']. simpl in *.
+      change (GA (is_some (w_claim w)) (apply_effs w es)). apply calm_effs_GA; [exact Hc|apply GA_init; exact HJ].
+    + destruct (claim_reconcile_at_fresh w old f Elk) as [_ E].
+      pose proof (step_GA_claim w f HJ) as X. unfold step in X. simpl in X. simpl. rewrite E. exact X.
+Qed.
+
+Lemma deletes_recorded_snoc : forall ops w o,
+  deletes_recorded w (ops ++ [o]) =
+  deletes_recorded w ops && match o with EnvDelClaim => recorded_or_absent_b (run w ops) | _ => true end.
+Proof.
+  induction ops as [|a ops IH]; intros w o; simpl.
+  - rewrite andb_true_r. reflexivity.
+  - rewrite IH. rewrite andb_assoc. reflexivity.
+Qed.
+
+Lemma run_accounted : forall ops w, accounted w -> deletes_recorded w ops = true -> accounted (run w ops).
+Proof.
+  induction ops as [|o ops IH]; intros w HJ Hp; simpl in *; [exact HJ|].
+  apply andb_prop in Hp. destruct Hp as [H1 H2]. apply IH; [|exact H2].
+  apply (proj1 (step_GA w o HJ ltac:(intros ->; exact H1))).
+Qed.
+
+(* no orphan, weakest premise: no assumption on faults, persistence or restarts — only that nobody deletes the
+   NodeClaim while it holds an instance it has not recorded *)
+Lemma no_orphan_weakest_l : forall w0 ops o,
+  accounted w0 -> deletes_recorded w0 (ops ++ [o]) = true ->
+  orphaned (run w0 ops) (run w0 (ops ++ [o])) = false.
+Proof.
+  intros w0 ops o HJ Hp. rewrite deletes_recorded_snoc in Hp. apply andb_prop in Hp. destruct Hp as [H1 H2].
+  rewrite run_snoc. apply GA_orphaned. apply step_GA; [apply run_accounted; assumption|].
+  intros ->. exact H2.
+Qed.
+
+(* ... and that premise is needed: deleting a claim that holds an unrecorded instance orphans it at the next
+   fault-free finalize (claim managed, with finalizer, no grace period) *)
+Lemma delete_unrecorded_orphans_l : forall now ns reg an dr vo te tw ps vs s k,
+  inst_absent s = false ->
+  let w := W now ns (Some (C true true None false reg None an dr vo te)) tw ps vs s k in
+  orphaned w (run w [EnvDelClaim; RClaim None]) = true.
+Proof.
+  intros now ns reg an dr vo te tw ps vs s k Hs. cbv zeta. unfold orphaned, run. simpl.
+  unfold step at 2. simpl. unfold step. simpl. unfold claim_reconcile. simpl. unfold claim_finalize. simpl.
+  destruct reg, an, s; simpl in *; try discriminate; reflexivity.
+Qed.
+
+(* the provider never resurrects an instance: once Gone it stays Gone unless a lifecycle reconcile launches for a
+   claim that is neither deleting nor launched *)
+Lemma gone_is_final_l : forall w o, w_inst w = IGone ->
+  (forall f c, (o = RClaim f \/ exists old, o = RClaimStale old f) -> w_claim w = Some c -> c_del c <> None \/ c_pid c = true) ->
+  w_inst (fst (step w o)) = IGone.
+Proof.
+  intros w o Hi Hl.
+  assert (XP : forall es w, forallb plain es = true -> w_inst w = IGone -> w_inst (apply_effs w es) = IGone).
+  { clear. induction es as [|e es IH]; intros w H Hi; simpl in *; [exact Hi|].
+    apply andb_prop in H. destruct H as [H1 H2]. unfold apply_effs in *. simpl. apply IH; [exact H2|].
+    destruct e as [ok|a|i ok|a|ok d v t|i ok|ok t|i ok|ok|ok|ok|ok|ok|ok d v t]; simpl in *;
+      try destruct ok; try destruct a; simpl in *; try discriminate; auto;
+      try (match goal with |- context[upd_node ?i ?g w] => destruct (upd_node_frame i g w) as (_&_&_&X&_); rewrite X; auto end; fail);
+      try (rewrite Hi; reflexivity). }
+  assert (XC : forall es w, forallb no_create es = true -> w_inst w = IGone -> w_inst (apply_effs w es) = IGone).
+  { clear. induction es as [|e es IH]; intros w H Hi; simpl in *; [exact Hi|].
+    apply andb_prop in H. destruct H as [H1 H2]. unfold apply_effs in *. simpl. apply IH; [exact H2|].
+    destruct e as [ok|a|i ok|a|ok d v t|i ok|ok t|i ok|ok|ok|ok|ok|ok|ok d v t]; simpl in *;
+      try destruct ok; try destruct a; simpl in *; try discriminate; auto;
+      try (match goal with |- context[upd_node ?i ?g w] => destruct (upd_node_frame i g w) as (_&_&_&X&_); rewrite X; auto end; fail);
+      try (rewrite Hi; reflexivity). }
+  assert (XL : forall c f, w_claim w = Some c -> (c_del c <> None \/ c_pid c = true) -> c_del c = None ->
+               w_inst (apply_effs w (fst (fst (claim_launch w c f)))) = IGone).
+  { intros c f Ec [Hd|Hp] Ed; [congruence|]. unfold claim_launch. cbv zeta. rewrite Hp.
+    destruct (c_fin c); [simpl; exact Hi|]. destruct (fails f SAddFin) as [[| |]|]; simpl; exact Hi. }
+  unfold step. destruct (is_env o) eqn:He.
+  - destruct o; simpl in He; try discriminate; simpl; try exact Hi;
+      try (match goal with |- context[upd_node ?i ?g w] => destruct (upd_node_frame i g w) as (_&_&_&X&_); rewrite X; exact Hi end; fail);
+      try (destruct (existsb _ (w_pods w)); exact Hi);
+      try (rewrite Hi; reflexivity).
+  - destruct o as [i f|f| | | | | | | | | | | | | |old f|old f]; simpl in He; try discriminate; simpl.
+    + pose proof (node_reconcile_plain w i f) as Hp. destruct (node_reconcile w i f) as [es r]. simpl in *. apply XP; assumption.
+    + unfold claim_reconcile. destruct (w_claim w) as [c|] eqn:Ec; [|simpl; exact Hi].
+      destruct (negb (c_managed c)); [simpl; exact Hi|].
+      destruct (c_del c) as [t|] eqn:Ed.
+      * pose proof (claim_finalize_no_create w c t None f) as Hn. destruct (claim_finalize w c t None f) as [es r]. simpl in *.
+        apply XC; assumption.
+      * pose proof (XL c f eq_refl (Hl f c (or_introl eq_refl) eq_refl) Ed) as X.
+        destruct (claim_launch w c f) as [[es r] k]. exact X.
+    + pose proof (node_reconcile_at_plain w old f) as Hp. destruct (node_reconcile_at w old f) as [es r]. simpl in *. apply XP; assumption.
+    + unfold claim_reconcile_at. destruct (negb (c_managed old)); [simpl; exact Hi|].
+      destruct (c_del old) as [t|] eqn:Ed.
+      * pose proof (claim_finalize_no_create w old t (claim_lock w old) f) as Hn.
+        destruct (claim_finalize w old t (claim_lock w old) f) as [es r]. simpl in *. apply XC; assumption.
+      * destruct (claim_lock w old) eqn:Elk; [simpl; exact Hi|].
+        destruct (claim_reconcile_at_fresh w old f Elk) as [Ec _].
+        pose proof (XL old f Ec (Hl f old (or_intror (ex_intro _ old eq_refl)) Ec) Ed) as X.
+        destruct (claim_launch w old f) as [[es r] k]. exact X.
+Qed.
+
+(* A lifecycle reconcile that is handed an older version of the NodeClaim never removes the finalizer: every write
+   of finalize carries that version's resourceVersion. A removal therefore comes from the current version, and the
+   theorems about [claim_reconcile] apply to it. *)
+Lemma claim_finalizer_stale_read_l : forall w old f es r k,
+  claim_reconcile_at w old f = (es, r, k) -> In (ERmClaimFin true) es ->
+  w_claim w = Some old /\ claim_reconcile w f = (es, r, k).
+Proof.
+  intros w old f es r k H Hin.
+  destruct (claim_lock w old) as [kk|] eqn:Elk.
+  - exfalso. pose proof (claim_reconcile_at_locked w old f kk Elk) as Hc. rewrite H in Hc. simpl in Hc.
+    rewrite forallb_forall in Hc. specialize (Hc _ Hin). discriminate.
+  - destruct (claim_reconcile_at_fresh w old f Elk) as [Ec E]. split; [exact Ec|]. rewrite <- E. exact H.
+Qed.
+
+(* Duplicate NodeClaims for one provider id: NodeClaimForNode fails with a duplicate error that finalize ignores, the
+   node is handled as if it had no NodeClaim — cordon, drain and volume clauses hold (node_finalizer_claimless), the
+   provider's confirmation is skipped. Witness: both claims recorded, instance Running, finalizer removed. *)
+Definition dup_w : world :=
+  W 1000 [N 0 true true true true true true]
+    (Some (C true true None true true None ANone DTrue VTrue false))
+    (Some (C true true None true false None ANone DNone VNone false)) [] [] IRunning false.
+
+Lemma duplicate_claims_witness_l :
+  duplicates dup_w = true /\ node_has_claim_b dup_w = false /\
+  node_reconcile dup_w 0 None = ([ERmNodeFin 0 true], ROk) /\
+  node_fin_ok_b dup_w (instant dup_w [ERmNodeFin 0 true]) 0 = false /\
+  w_inst (fst (step dup_w (RNode 0 None))) = IRunning.
+Proof. vm_compute. repeat split; reflexivity. Qed.
+
+Lemma duplicates_claimless_l : forall w, duplicates w = true -> visible_claim w = None.
+Proof.
+  intros w H. unfold duplicates, visible_claim in *. destruct (with_pid (w_claim w)), (with_pid (w_twin w)); simpl in *; try discriminate; reflexivity.
+Qed.
+
+Lemma node_fin_ok_seen_b_spec : forall w0 w i nr, node_fin_ok_seen_b w0 w i nr = true <-> node_fin_ok_seen w0 w i nr.
+Proof.
+  intros w0 w i nr. unfold node_fin_ok_seen_b, node_fin_ok_seen. destruct (get_node i (w_nodes w)) as [n|].
+  - split.
+    + intros H. exists n. split; [reflexivity|]. apply orb_prop in H. destruct H as [H|H].
+      * left. apply andb_prop in H. destruct H as [H Hi]. apply andb_prop in H. destruct H as [H Hv].
+        apply andb_prop in H. destruct H as [Ht Hd]. repeat split; auto.
+        -- apply drain_done_spec. exact Hd.
+        -- apply orb_prop in Hv. destruct Hv as [Hv|Hv].
+           ++ left. apply pending_none_spec. destruct (pending_vas i w); [reflexivity|discriminate].
+           ++ right. apply tgp_expired_spec. exact Hv.
+      * right. apply andb_prop in H. destruct H as [Hr Hi]. rewrite negb_true_iff in Hr. auto.
+    + intros (n' & E & H). inversion E; subst n'. clear E. destruct H as [(Ht & Hd & Hv & Hi)|(Hr & Hi)].
+      * apply orb_true_iff. left. rewrite Ht, Hi. apply drain_done_spec in Hd. rewrite Hd. simpl.
+        rewrite andb_true_r. destruct Hv as [Hv|Hv].
+        -- apply pending_none_spec in Hv. rewrite Hv. reflexivity.
+        -- apply tgp_expired_spec in Hv. rewrite Hv. apply orb_true_r.
+      * apply orb_true_iff. right. rewrite Hr, Hi. reflexivity.
+  - split; [discriminate | intros (n & E & _); discriminate].
 Qed.
